@@ -3,22 +3,34 @@ import CaresModel.Generated.ReinitProg
 /-!
 # C11 (clause: ares_reinit() / ares_destroy() cannot deadlock) — theorems over the `Reinit` transition system
 
+The system: ANY number of caller threads (application threads, the configuration-change watcher of the event thread)
+that each call ares_reinit() any number of times in any interleaving, every reload thread they create, and one
+destroyer thread that calls ares_destroy() once; after that call no new ares_reinit() is started, calls in progress
+run on.  `Reachable c s` quantifies over the number of callers (it is part of the initial state), so every theorem
+below is for all N.
+
 ares_reinit() joins the previous reload thread while it HOLDS the channel lock L.  That is safe only because the
 reload thread resets `reinit_pending` at a point after which it never needs L again: a caller that saw
 `reinit_pending == FALSE` joins a thread that can run to its end without L.  `NoLockAfterClear` is that condition as
-a decidable check of the thread's program; `deadlock_free` proves, by an inductive invariant over ALL interleavings
-and any number of ares_reinit() calls, that it suffices; `generated_prog_ok` is the obligation that the program
-tools/gen_reinit.py extracted from the current ares_reinit_thread() satisfies it.  `regression_deadlocks` is a
-kernel-checked schedule showing what happens when the flag is reset in a locked section at the START of the thread.
+a decidable check of the thread's program; `deadlock_free` proves, by an inductive invariant over ALL interleavings,
+any number of callers and any number of ares_reinit() calls, that it suffices; `generated_prog_ok` is the obligation
+that the program tools/gen_reinit.py extracted from the current ares_reinit_thread() satisfies it.
+`regression_deadlocks` is a kernel-checked schedule showing what happens when the flag is reset in a locked section
+at the START of the thread.
 
-Invariant (`HInv` ∧ `Inv`), in words:
-  * a reload thread the stored handle does not refer to has finished; at `rSpawn` there is no stored handle;
-  * the application owns L exactly at the program points where the code holds it (`appHolds`);
-  * for each thread with remaining program `r` there is a flag `cl` ("has reset reinit_pending") such that
-    `scan r (thread owns L) cl` holds, and if `cl = false` for the thread the handle refers to then
-    `reinit_pending` is set and the application is not at `rJoin`;
-  * the owner of L and the stored handle are existing threads; between the test of `reinit_pending` and the
-    creation of the new thread the flag stays set; after ares_destroy()'s join there is no stored handle.
+Invariants, in words:
+  * `LInv` (every program): caller `i` owns L exactly at the program points where the code holds it (`appHolds`),
+    likewise the destroyer (`dstHolds`);
+  * `HInv` (given `Excl`): a reload thread the stored handle does not refer to has finished; a caller at `rSpawn`
+    implies that there is no stored handle;
+  * `Excl`: at most one caller is between its test of `reinit_pending` and the creation of the thread
+    (from `LInv` when ares_reinit() keeps L there, from `Inv.spawnPend` in general);
+  * `Inv` (given `NoLockAfterClear`): for each thread with remaining program `r` there is a flag `cl` ("has reset
+    reinit_pending") such that `scan r (thread owns L) cl` holds, and if `cl = false` for the thread the handle
+    refers to then `reinit_pending` is set and NO caller is at `rJoin`; the owner of L and the stored handle are
+    existing threads; while some caller is between the test and the creation the flag stays set;
+  * `DInv` (given `joinHoldsLock`): sys_up is reset exactly from `dMark` on, then no caller is past its test, and
+    after ares_destroy()'s join there is no stored handle.
 -/
 namespace Cares.C11b
 open Cares.Reinit
@@ -40,32 +52,7 @@ def NoLockAfterClear (p : List ROp) : Bool := scan p false false
 /-- reload thread `k` owns L -/
 def holds (s : St) (k : Nat) : Bool := decide (s.owner = .thr k)
 
-structure HInv (s : St) : Prop where
-  retired : ∀ k r, s.thrs[k]? = some r → s.handle ≠ some k → r = []
-  spawnHandle : s.apc = .rSpawn → s.handle = none
-
-theorem hinv_init : HInv St.init := by
-  constructor <;> simp [St.init]
-
-theorem thrStep_some {s s' : St} {k : Nat} (h : thrStep s k = some s') :
-    ∃ op rest, s.thrs[k]? = some (op :: rest) ∧ s'.thrs = s.thrs.set k rest ∧ s'.handle = s.handle ∧
-      s'.apc = s.apc ∧ s'.sysUp = s.sysUp := by
-  unfold thrStep at h
-  split at h
-  · simp at h
-  · simp at h
-  · rename_i op rest heq
-    refine ⟨op, rest, heq, ?_⟩
-    cases op <;> simp only [] at h <;> (try split at h) <;> simp at h <;> subst h <;> simp
-
-theorem joinable_handle {s : St} (h : joinable s = true) : ∀ k, s.handle = some k → s.thrs[k]? = some [] := by
-  intro k hk
-  unfold joinable at h
-  rw [hk] at h
-  simp only [] at h
-  split at h
-  · assumption
-  · simp at h
+/-! ## list lemmas -/
 
 theorem getElem_opt_snoc {α : Type} {l : List α} {a r : α} {k : Nat} (h : (l ++ [a])[k]? = some r) :
     (k < l.length ∧ l[k]? = some r) ∨ (k = l.length ∧ r = a) := by
@@ -89,23 +76,165 @@ theorem getElem_opt_set_cases {α : Type} {l : List α} {i j : Nat} {a r : α} (
   · rename_i hij
     right; exact ⟨fun e => hij e.symm, h⟩
 
-theorem hinv_step (c : Cfg) {s s' : St} (st : Step) (hi : HInv s) (h : step c s st = some s') : HInv s' := by
+theorem getElem_opt_lt {α : Type} {l : List α} {i : Nat} {a : α} (h : l[i]? = some a) : i < l.length := by
+  apply Classical.byContradiction
+  intro hn
+  rw [List.getElem?_eq_none (Nat.le_of_not_lt hn)] at h
+  cases h
+
+/-! ## predicates on the callers' program counters -/
+
+/-- between the test of reinit_pending and the creation of the new thread -/
+def inRegion : APc → Bool
+  | .rJoin | .rSpawn => true
+  | _ => false
+
+def inJoin : APc → Bool
+  | .rJoin => true
+  | _ => false
+
+/-- no caller is at a program point satisfying `f` -/
+def NoneAt (f : APc → Bool) (pcs : List APc) : Prop :=
+  ∀ (j : Nat) (q : APc), pcs[j]? = some q → f q = false
+
+/-- at most one caller is between the test of reinit_pending and the creation of the new thread -/
+def Excl (pcs : List APc) : Prop :=
+  ∀ (i j : Nat) (p q : APc), pcs[i]? = some p → inRegion p = true → pcs[j]? = some q → inRegion q = true → i = j
+
+theorem noneAt_set {f : APc → Bool} {pcs : List APc} {i : Nat} {p' : APc} (h : NoneAt f pcs) (hp' : f p' = false) :
+    NoneAt f (pcs.set i p') := by
+  intro j q hj
+  rcases getElem_opt_set_cases hj with ⟨_, rfl, _⟩ | ⟨_, hj'⟩
+  · exact hp'
+  · exact h j q hj'
+
+theorem noneAt_join_of_region {pcs : List APc} (h : NoneAt inRegion pcs) : NoneAt inJoin pcs := by
+  intro j q hj
+  have := h j q hj
+  cases q <;> simp_all [inRegion, inJoin]
+
+theorem excl_set_out {pcs : List APc} {i : Nat} {p' : APc} (h : Excl pcs) (hp' : inRegion p' = false) :
+    Excl (pcs.set i p') := by
+  intro a b p q ha hpa hb hqb
+  rcases getElem_opt_set_cases ha with ⟨_, rfl, _⟩ | ⟨_, ha'⟩
+  · rw [hp'] at hpa; cases hpa
+  · rcases getElem_opt_set_cases hb with ⟨_, rfl, _⟩ | ⟨_, hb'⟩
+    · rw [hp'] at hqb; cases hqb
+    · exact h a b p q ha' hpa hb' hqb
+
+theorem excl_set_stay {pcs : List APc} {i : Nat} {p p' : APc} (h : Excl pcs) (hpi : pcs[i]? = some p)
+    (hr : inRegion p = true) : Excl (pcs.set i p') := by
+  intro a b p1 q ha hpa hb hqb
+  rcases getElem_opt_set_cases ha with ⟨rfl, _, _⟩ | ⟨hne, ha'⟩
+  · rcases getElem_opt_set_cases hb with ⟨rfl, _, _⟩ | ⟨_, hb'⟩
+    · rfl
+    · exact h _ _ _ _ hpi hr hb' hqb
+  · rcases getElem_opt_set_cases hb with ⟨rfl, _, _⟩ | ⟨_, hb'⟩
+    · exact h _ _ _ _ ha' hpa hpi hr
+    · exact h a b p1 q ha' hpa hb' hqb
+
+theorem excl_set_enter {pcs : List APc} {i : Nat} {p' : APc} (h : NoneAt inRegion pcs) : Excl (pcs.set i p') := by
+  intro a b p q ha hpa hb hqb
+  rcases getElem_opt_set_cases ha with ⟨rfl, _, _⟩ | ⟨_, ha'⟩
+  · rcases getElem_opt_set_cases hb with ⟨rfl, _, _⟩ | ⟨_, hb'⟩
+    · rfl
+    · rw [h _ _ hb'] at hqb; cases hqb
+  · rw [h _ _ ha'] at hpa; cases hpa
+
+/-- the one caller in the region leaves it: nobody is in the region afterwards -/
+theorem noneAt_leave {pcs : List APc} {i : Nat} {p p' : APc} (h : Excl pcs) (hpi : pcs[i]? = some p)
+    (hr : inRegion p = true) (hp' : inRegion p' = false) : NoneAt inRegion (pcs.set i p') := by
+  intro j q hj
+  rcases getElem_opt_set_cases hj with ⟨_, rfl, _⟩ | ⟨hne, hj'⟩
+  · exact hp'
+  · cases hq : inRegion q with
+    | false => rfl
+    | true => exact absurd (h _ _ _ _ hj' hq hpi hr) hne
+
+/-! ## lock discipline (for every reload-thread program) -/
+
+def CallerLock (c : Cfg) (o : Owner) (pcs : List APc) : Prop :=
+  ∀ i : Nat, o = .caller i ↔ ∃ p, pcs[i]? = some p ∧ appHolds c p = true
+
+structure LInv (c : Cfg) (s : St) : Prop where
+  callerLock : CallerLock c s.owner s.pcs
+  dstLock : s.owner = .destroyer ↔ dstHolds c s.dpc = true
+
+theorem callerLock_set {c : Cfg} {o o' : Owner} {pcs : List APc} {i : Nat} {p p' : APc}
+    (h : CallerLock c o pcs) (hpi : pcs[i]? = some p)
+    (h1 : o' = .caller i ↔ appHolds c p' = true)
+    (h2 : ∀ j, j ≠ i → (o' = .caller j ↔ o = .caller j)) : CallerLock c o' (pcs.set i p') := by
+  intro j
+  by_cases hj : j = i
+  · subst hj
+    rw [h1]
+    have hlt := getElem_opt_lt hpi
+    simp [hlt]
+  · rw [h2 j hj, h j]
+    have hij : ¬ i = j := fun e => hj e.symm
+    simp [hij]
+
+theorem callerLock_owner {c : Cfg} {o o' : Owner} {pcs : List APc} (h : CallerLock c o pcs)
+    (h2 : ∀ j, (o' = .caller j ↔ o = .caller j)) : CallerLock c o' pcs := by
+  intro j; rw [h2 j]; exact h j
+
+theorem replicate_idle {n i : Nat} {p : APc} (h : (List.replicate n APc.idle)[i]? = some p) : p = .idle := by
+  have hlt := getElem_opt_lt h
+  simp at hlt
+  simp [hlt] at h
+  exact h.symm
+
+theorem linv_init (c : Cfg) (n w1 w2 : Nat) : LInv c (St.init n w1 w2) := by
+  constructor
+  · intro i
+    simp only [St.init]
+    constructor
+    · intro h; cases h
+    · rintro ⟨p, hp, hh⟩
+      have := replicate_idle hp
+      subst this
+      simp [appHolds] at hh
+  · simp [St.init, dstHolds]
+
+theorem thrStep_some {s s' : St} {k : Nat} (h : thrStep s k = some s') :
+    ∃ op rest, s.thrs[k]? = some (op :: rest) ∧ s'.thrs = s.thrs.set k rest ∧ s'.handle = s.handle ∧
+      s'.pcs = s.pcs ∧ s'.dpc = s.dpc ∧ s'.sysUp = s.sysUp ∧
+      (s'.owner = s.owner ∨ (s.owner = .free ∧ s'.owner = .thr k) ∨ (s.owner = .thr k ∧ s'.owner = .free)) := by
+  unfold thrStep at h
+  split at h
+  · simp at h
+  · simp at h
+  · rename_i op rest heq
+    refine ⟨op, rest, heq, ?_⟩
+    cases op <;> simp only [] at h <;> (try split at h) <;> simp at h <;> subst h <;> simp_all
+
+/-- side conditions of `callerLock_set` -/
+macro "lock_side" hcl:ident i:ident : tactic =>
+  `(tactic| first
+    | (have h0 := $hcl $i; simp_all [appHolds]; done)
+    | (intro j hj; have hji : ¬ $i = j := fun e => hj e.symm; have h0 := $hcl $i; have h1 := $hcl j
+       simp_all [appHolds]; done)
+    | (have h0 := $hcl $i; simp_all [appHolds, dstHolds]; done))
+
+theorem linv_step (c : Cfg) {s s' : St} (st : Step) (hi : LInv c s) (h : step c s st = some s') : LInv c s' := by
+  obtain ⟨hcl, hdl⟩ := hi
   cases st with
-  | callReinit =>
-    simp [step] at h
-    obtain ⟨h1, rfl⟩ := h
-    exact ⟨hi.retired, by simp⟩
+  | callReinit i =>
+    simp only [step] at h
+    split at h
+    · rename_i hc
+      simp at h; subst h
+      refine ⟨callerLock_set hcl hc.1 ?_ ?_, hdl⟩ <;> lock_side hcl i
+    · simp at h
   | callDestroy =>
-    simp [step] at h
-    obtain ⟨h1, rfl⟩ := h
-    exact ⟨hi.retired, by simp⟩
-  | app =>
-    have hjoin : joinable s = true → ∀ (k : Nat) (r : List ROp), s.thrs[k]? = some r → r = [] := by
-      intro hj k r hk
-      by_cases hh : s.handle = some k
-      · have := joinable_handle hj k hh
-        rw [this] at hk; simp at hk; exact hk
-      · exact hi.retired k r hk hh
+    simp only [step] at h
+    split at h
+    · rename_i hc
+      simp at h; subst h
+      refine ⟨hcl, ?_⟩
+      simp_all [dstHolds]
+    · simp at h
+  | app i =>
     simp only [step] at h
     unfold appStep at h
     split at h
@@ -113,25 +242,140 @@ theorem hinv_step (c : Cfg) {s s' : St} (st : Step) (hi : HInv s) (h : step c s 
     all_goals (try (split at h))
     all_goals (try (simp at h))
     all_goals (try (subst h))
-    all_goals (first | exact ⟨hi.retired, by simp_all⟩ | skip)
-    · exact ⟨fun k r hk _ => hjoin (by assumption) k r hk, by simp⟩
-    · rename_i hsp
-      refine ⟨?_, by simp⟩
-      intro k r hk hne
-      simp only [] at hk hne
-      rcases getElem_opt_snoc hk with ⟨_, h2⟩ | ⟨h1, _⟩
-      · exact hi.retired k r h2 (by simp [hi.spawnHandle hsp])
-      · subst h1; simp at hne
-    · exact ⟨fun k r hk _ => hjoin (by assumption) k r hk, by simp⟩
-    · exact ⟨fun k r hk _ => hjoin (by assumption) k r hk, by simp⟩
-  | spawnFail =>
+    all_goals (rename_i hpi)
+    all_goals (refine ⟨callerLock_set hcl (by assumption) ?_ ?_, ?_⟩)
+    all_goals (lock_side hcl i)
+  | spawnFail i =>
     simp only [step, spawnFailStep] at h
     split at h
     all_goals (try (split at h))
     all_goals (try (split at h))
     all_goals (try (simp at h))
     all_goals (try (subst h))
-    all_goals exact ⟨hi.retired, by simp⟩
+    all_goals (refine ⟨callerLock_set hcl (by assumption) ?_ ?_, ?_⟩)
+    all_goals (lock_side hcl i)
+  | destroy =>
+    simp only [step] at h
+    unfold dstStep at h
+    split at h
+    all_goals (try (split at h))
+    all_goals (try (simp at h))
+    all_goals (try (subst h))
+    all_goals (refine ⟨callerLock_owner hcl ?_, ?_⟩)
+    all_goals (first | (simp_all [dstHolds]; done) | (intro j; have h1 := hcl j; simp_all [dstHolds]; done) | (cases hdd : c.destroyJoinHoldsLock <;> simp_all [dstHolds]; done))
+  | thr k =>
+    simp only [step] at h
+    obtain ⟨op, rest, _, _, _, h4, h5, _, h7⟩ := thrStep_some h
+    refine ⟨?_, ?_⟩
+    · rw [h4]
+      refine callerLock_owner hcl ?_
+      intro j
+      rcases h7 with h7 | ⟨h7, h8⟩ | ⟨h7, h8⟩
+      · rw [h7]
+      · rw [h7, h8]; simp
+      · rw [h7, h8]; simp
+    · rw [h5, ← hdl]
+      rcases h7 with h7 | ⟨h7, h8⟩ | ⟨h7, h8⟩
+      · rw [h7]
+      · rw [h7, h8]; simp
+      · rw [h7, h8]; simp
+  | cfgFail k =>
+    simp only [step, cfgFailStep] at h
+    split at h
+    · simp at h; subst h; exact ⟨hcl, hdl⟩
+    · simp at h
+
+/-! ## handle discipline -/
+
+structure HInv (s : St) : Prop where
+  retired : ∀ (k : Nat) (r : List ROp), s.thrs[k]? = some r → s.handle ≠ some k → r = []
+  spawnHandle : ∀ i : Nat, s.pcs[i]? = some .rSpawn → s.handle = none
+
+theorem hinv_init (n w1 w2 : Nat) : HInv (St.init n w1 w2) := by
+  constructor
+  · simp [St.init]
+  · intro i hi
+    simp only [St.init] at hi
+    have := replicate_idle hi
+    cases this
+
+theorem joinable_handle {s : St} (h : joinable s = true) : ∀ k, s.handle = some k → s.thrs[k]? = some [] := by
+  intro k hk
+  unfold joinable at h
+  rw [hk] at h
+  simp only [] at h
+  split at h
+  · assumption
+  · simp at h
+
+theorem spawnHandle_set {pcs : List APc} {i : Nat} {p' : APc} {h : Option Nat}
+    (hs : ∀ j : Nat, pcs[j]? = some .rSpawn → h = none) (hp' : p' ≠ .rSpawn) :
+    ∀ j : Nat, (pcs.set i p')[j]? = some .rSpawn → h = none := by
+  intro j hj
+  rcases getElem_opt_set_cases hj with ⟨_, h1, _⟩ | ⟨_, hj'⟩
+  · exact absurd h1.symm hp'
+  · exact hs j hj'
+
+theorem hinv_step (c : Cfg) {s s' : St} (st : Step) (hi : HInv s) (he : Excl s.pcs) (h : step c s st = some s') :
+    HInv s' := by
+  have hjoin : joinable s = true → ∀ (k : Nat) (r : List ROp), s.thrs[k]? = some r → r = [] := by
+    intro hj k r hk
+    by_cases hh : s.handle = some k
+    · have := joinable_handle hj k hh
+      rw [this] at hk; simp at hk; exact hk
+    · exact hi.retired k r hk hh
+  cases st with
+  | callReinit i =>
+    simp only [step] at h
+    split at h
+    · simp at h; subst h
+      exact ⟨hi.retired, spawnHandle_set hi.spawnHandle (by simp)⟩
+    · simp at h
+  | callDestroy =>
+    simp only [step] at h
+    split at h
+    · simp at h; subst h
+      exact ⟨hi.retired, hi.spawnHandle⟩
+    · simp at h
+  | app i =>
+    simp only [step] at h
+    unfold appStep at h
+    split at h
+    all_goals (try (split at h))
+    all_goals (try (split at h))
+    all_goals (try (simp at h))
+    all_goals (try (subst h))
+    all_goals (first | exact ⟨hi.retired, spawnHandle_set hi.spawnHandle (by simp)⟩ | skip)
+    · exact ⟨fun k r hk _ => hjoin (by assumption) k r hk, by simp⟩
+    · rename_i hsp
+      refine ⟨?_, ?_⟩
+      · intro k r hk hne
+        simp only [] at hk hne
+        rcases getElem_opt_snoc hk with ⟨_, h2⟩ | ⟨h1, _⟩
+        · exact hi.retired k r h2 (by simp [hi.spawnHandle i hsp])
+        · subst h1; simp at hne
+      · intro j hj
+        simp only [] at hj
+        rcases getElem_opt_set_cases hj with ⟨_, h1, _⟩ | ⟨hne, hj'⟩
+        · cases h1
+        · exact absurd (he _ _ _ _ hj' rfl hsp rfl) hne
+  | spawnFail i =>
+    simp only [step, spawnFailStep] at h
+    split at h
+    all_goals (try (split at h))
+    all_goals (try (split at h))
+    all_goals (try (simp at h))
+    all_goals (try (subst h))
+    all_goals exact ⟨hi.retired, spawnHandle_set hi.spawnHandle (by simp)⟩
+  | destroy =>
+    simp only [step] at h
+    unfold dstStep at h
+    split at h
+    all_goals (try (split at h))
+    all_goals (try (simp at h))
+    all_goals (try (subst h))
+    all_goals (first | exact ⟨hi.retired, hi.spawnHandle⟩ | skip)
+    exact ⟨fun k r hk _ => hjoin (by assumption) k r hk, by simp⟩
   | thr k =>
     simp only [step] at h
     obtain ⟨op, rest, h1, h2, h3, h4, _⟩ := thrStep_some h
@@ -158,24 +402,45 @@ theorem hinv_step (c : Cfg) {s s' : St} (st : Step) (hi : HInv s) (h : step c s 
       · exact hi.retired _ _ hj' hne
     · simp at h
 
+/-! ## the main invariant (needs `NoLockAfterClear`) -/
+
 /-- what the invariant says about reload thread `k` with remaining program `r` -/
 def ThrOk (s : St) (k : Nat) (r : List ROp) : Prop :=
-  ∃ cl, scan r (holds s k) cl = true ∧ (cl = false → s.handle = some k → s.pending = true ∧ s.apc ≠ .rJoin)
+  ∃ cl, scan r (holds s k) cl = true ∧
+    (cl = false → s.handle = some k → s.pending = true ∧ NoneAt inJoin s.pcs)
 
-structure Inv (c : Cfg) (s : St) : Prop where
-  appLock : s.owner = .app ↔ appHolds c s.apc = true
+/-- while some caller is between its test of reinit_pending and the creation of the new thread, the flag is set -/
+def SpawnPend (pd : Bool) (pcs : List APc) : Prop :=
+  ∀ (j : Nat) (q : APc), pcs[j]? = some q → inRegion q = true → pd = true
+
+structure Inv (s : St) : Prop where
   thrOk : ∀ (k : Nat) (r : List ROp), s.thrs[k]? = some r → ThrOk s k r
   ownerLt : ∀ k, s.owner = .thr k → k < s.thrs.length
   handleLt : ∀ h, s.handle = some h → h < s.thrs.length
-  spawnPend : s.apc = .rJoin ∨ s.apc = .rSpawn → s.pending = true
-  destroyed : s.apc = .dLock2 ∨ s.apc = .dClean ∨ s.apc = .done → s.handle = none
+  spawnPend : SpawnPend s.pending s.pcs
+  excl : Excl s.pcs
 
-theorem inv_init (c : Cfg) : Inv c St.init := by
-  constructor <;> simp [St.init, appHolds]
+theorem inv_init (n w1 w2 : Nat) : Inv (St.init n w1 w2) := by
+  refine ⟨by simp [St.init], by simp [St.init], by simp [St.init], ?_, ?_⟩
+  · intro j q hj hq
+    simp only [St.init] at hj
+    have := replicate_idle hj
+    subst this; cases hq
+  · intro i j p q hi hp
+    simp only [St.init] at hi
+    have := replicate_idle hi
+    subst this; cases hp
+
+theorem spawnPend_set_out {pd : Bool} {pcs : List APc} {i : Nat} {p' : APc} (h : SpawnPend pd pcs)
+    (hp' : inRegion p' = false) : SpawnPend pd (pcs.set i p') := by
+  intro j q hj hq
+  rcases getElem_opt_set_cases hj with ⟨_, rfl, _⟩ | ⟨_, hj'⟩
+  · rw [hp'] at hq; cases hq
+  · exact h j q hj' hq
 
 theorem thrOk_mono {s s' : St} (hthr : s'.thrs = s.thrs) (hown : ∀ k, holds s' k = holds s k)
     (hx : ∀ k, s'.handle = some k → s.handle = some k ∧
-      (s.pending = true ∧ s.apc ≠ .rJoin → s'.pending = true ∧ s'.apc ≠ .rJoin))
+      (s.pending = true ∧ NoneAt inJoin s.pcs → s'.pending = true ∧ NoneAt inJoin s'.pcs))
     (h : ∀ (k : Nat) (r : List ROp), s.thrs[k]? = some r → ThrOk s k r) :
     ∀ (k : Nat) (r : List ROp), s'.thrs[k]? = some r → ThrOk s' k r := by
   intro k r hk
@@ -186,17 +451,116 @@ theorem thrOk_mono {s s' : St} (hthr : s'.thrs = s.thrs) (hown : ∀ k, holds s'
   obtain ⟨h3, h4⟩ := hx k hh
   exact h4 (h2 hcl h3)
 
+/-- a caller step that ends outside the region and leaves threads, handle and flag alone -/
+theorem inv_caller_out {s : St} {i : Nat} {p' : APc} {o' : Owner} (hi : Inv s) (hp' : inRegion p' = false)
+    (ho : ∀ k, o' = .thr k ↔ s.owner = .thr k) : Inv { s with owner := o', pcs := s.pcs.set i p' } := by
+  obtain ⟨hth, hol, hhl, hsp, hex⟩ := hi
+  refine ⟨thrOk_mono (s := s) rfl ?_ ?_ hth, ?_, hhl, spawnPend_set_out hsp hp', excl_set_out hex hp'⟩
+  · intro k; simp only [holds]; rw [decide_eq_decide]; exact ho k
+  · intro k hk
+    refine ⟨hk, fun ⟨a, b⟩ => ⟨a, noneAt_set b ?_⟩⟩
+    cases p' <;> simp_all [inRegion, inJoin]
+  · intro k hk; exact hol k ((ho k).mp hk)
+
+/-- a caller gets past the test of reinit_pending -/
+theorem inv_caller_enter {s : St} {i : Nat} {o' : Owner} (hi : Inv s) (hpend : s.pending = false)
+    (ho : ∀ k, o' = .thr k ↔ s.owner = .thr k) :
+    Inv { s with pending := true, owner := o', pcs := s.pcs.set i .rJoin } := by
+  obtain ⟨hth, hol, hhl, hsp, hex⟩ := hi
+  refine ⟨?_, ?_, hhl, fun _ _ _ _ => rfl, excl_set_enter ?_⟩
+  · intro k r hk
+    obtain ⟨cl, h1, h2⟩ := hth k r hk
+    refine ⟨cl, ?_, ?_⟩
+    · simp only [holds] at h1 ⊢; rw [decide_eq_decide.mpr (ho k)]; exact h1
+    · intro hcl hh
+      have := (h2 hcl hh).1
+      rw [hpend] at this; cases this
+  · intro k hk; exact hol k ((ho k).mp hk)
+  · intro j q hj
+    cases hq : inRegion q with
+    | false => rfl
+    | true => have := hsp j q hj hq; rw [hpend] at this; cases this
+
+/-- a caller's join returns -/
+theorem inv_caller_join {s : St} {i : Nat} (hi : Inv s) (hpi : s.pcs[i]? = some .rJoin) :
+    Inv { s with handle := none, pcs := s.pcs.set i .rSpawn } := by
+  obtain ⟨hth, hol, hhl, hsp, hex⟩ := hi
+  have hpend : s.pending = true := hsp i _ hpi rfl
+  refine ⟨?_, hol, by simp, fun _ _ _ _ => hpend, excl_set_stay hex hpi rfl⟩
+  intro k r hk
+  obtain ⟨cl, h1, _⟩ := hth k r hk
+  exact ⟨cl, h1, by simp⟩
+
+/-- a caller creates the new reload thread -/
+theorem inv_caller_spawn {c : Cfg} (hp : NoLockAfterClear c.prog = true) {s : St} {i : Nat} (hi : Inv s)
+    (hpi : s.pcs[i]? = some .rSpawn) :
+    Inv { s with thrs := s.thrs ++ [c.prog], handle := some s.thrs.length, pcs := s.pcs.set i .rUnlock } := by
+  obtain ⟨hth, hol, hhl, hsp, hex⟩ := hi
+  have hpend : s.pending = true := hsp i _ hpi rfl
+  refine ⟨?_, ?_, by simp, spawnPend_set_out hsp rfl, excl_set_out hex rfl⟩
+  · intro k r hk
+    simp only [] at hk
+    rcases getElem_opt_snoc hk with ⟨h1, h2⟩ | ⟨h1, h2⟩
+    · obtain ⟨cl, h3, _⟩ := hth k r h2
+      refine ⟨cl, h3, ?_⟩
+      intro _ h5
+      simp at h5
+      omega
+    · subst h1 h2
+      refine ⟨false, ?_, fun _ _ => ⟨hpend, noneAt_join_of_region (noneAt_leave hex hpi rfl rfl)⟩⟩
+      have hno : ¬ s.owner = .thr s.thrs.length := fun h6 => by have := hol _ h6; omega
+      simp only [holds, hno, decide_false]
+      exact hp
+  · intro k hk
+    have := hol k hk
+    simp
+    omega
+
+/-- ares_thread_create() fails -/
+theorem inv_caller_spawnFail {s : St} {i : Nat} (hh : HInv s) (hi : Inv s) (hpi : s.pcs[i]? = some .rSpawn) :
+    Inv { s with pending := false, pcs := s.pcs.set i .rUnlock } := by
+  obtain ⟨hth, hol, hhl, hsp, hex⟩ := hi
+  have hnone : s.handle = none := hh.spawnHandle i hpi
+  refine ⟨?_, hol, hhl, ?_, excl_set_out hex rfl⟩
+  · intro k r hk
+    obtain ⟨cl, h1, _⟩ := hth k r hk
+    refine ⟨cl, h1, ?_⟩
+    intro _ h2
+    simp only [] at h2
+    rw [hnone] at h2; cases h2
+  · intro j q hj hq
+    have := noneAt_leave (p' := .rUnlock) hex hpi rfl rfl j q hj
+    rw [this] at hq; cases hq
+
+/-- a step of the destroyer -/
+theorem inv_dst {s : St} {o' : Owner} {su' : Bool} {h' : Option Nat} {d' : DPc} (hi : Inv s)
+    (ho : ∀ k, o' = .thr k ↔ s.owner = .thr k) (hh : h' = s.handle ∨ h' = none) :
+    Inv { s with owner := o', sysUp := su', handle := h', dpc := d' } := by
+  obtain ⟨hth, hol, hhl, hsp, hex⟩ := hi
+  refine ⟨thrOk_mono (s := s) rfl ?_ ?_ hth, ?_, ?_, hsp, hex⟩
+  · intro k; simp only [holds]; rw [decide_eq_decide]; exact ho k
+  · intro k hk
+    simp only [] at hk
+    rcases hh with hh | hh
+    · rw [hh] at hk; exact ⟨hk, fun x => x⟩
+    · rw [hh] at hk; cases hk
+  · intro k hk; exact hol k ((ho k).mp hk)
+  · intro h hk
+    simp only [] at hk
+    rcases hh with hh | hh
+    · rw [hh] at hk; exact hhl h hk
+    · rw [hh] at hk; cases hk
+
 /-- frame lemma for a step of reload thread `k` (the thread the stored handle refers to) -/
-theorem inv_thr {c : Cfg} {s : St} {k : Nat} {rest : List ROp} {o' : Owner} {p' : Bool}
-    (hi : Inv c s) (hhk : s.handle = some k)
-    (ha : o' = .app ↔ s.owner = .app)
+theorem inv_thr {s : St} {k : Nat} {rest : List ROp} {o' : Owner} {p' : Bool}
+    (hi : Inv s) (hhk : s.handle = some k)
     (hb : ∀ j, j ≠ k → decide (o' = .thr j) = decide (s.owner = .thr j))
     (hc : o' = s.owner ∨ o' = .thr k ∨ o' = .free)
     (hd : ThrOk { s with thrs := s.thrs.set k rest, owner := o', pending := p' } k rest)
-    (he : s.apc = .rJoin ∨ s.apc = .rSpawn → p' = true) :
-    Inv c { s with thrs := s.thrs.set k rest, owner := o', pending := p' } := by
-  obtain ⟨hal, hth, hol, hhl, hsp, hde⟩ := hi
-  refine ⟨by simp only []; rw [ha]; exact hal, ?_, ?_, by simpa using hhl, he, hde⟩
+    (he : SpawnPend p' s.pcs) :
+    Inv { s with thrs := s.thrs.set k rest, owner := o', pending := p' } := by
+  obtain ⟨hth, hol, hhl, hsp, hex⟩ := hi
+  refine ⟨?_, ?_, by simpa using hhl, he, hex⟩
   · intro j r hj
     simp only [] at hj
     rcases getElem_opt_set_cases hj with ⟨rfl, rfl, _⟩ | ⟨hne, hj'⟩
@@ -219,66 +583,131 @@ theorem inv_thr {c : Cfg} {s : St} {k : Nat} {rest : List ROp} {o' : Owner} {p' 
     · rw [h1] at hj; cases hj
 
 theorem inv_step (c : Cfg) (hp : NoLockAfterClear c.prog = true) {s s' : St} (st : Step)
-    (hh : HInv s) (hi : Inv c s) (h : step c s st = some s') : Inv c s' := by
+    (hl : LInv c s) (hh : HInv s) (hi : Inv s) (h : step c s st = some s') : Inv s' := by
   cases st with
-  | callReinit =>
-    simp [step] at h
-    obtain ⟨h1, rfl⟩ := h
-    have hal := hi.appLock
-    refine ⟨by simp_all [appHolds], thrOk_mono (s := s) rfl (fun _ => rfl) (by simp_all) hi.thrOk, hi.ownerLt, hi.handleLt, by simp, by simp⟩
+  | callReinit i =>
+    simp only [step] at h
+    split at h
+    · simp at h; subst h
+      exact inv_caller_out (o' := s.owner) hi rfl (fun _ => Iff.rfl)
+    · simp at h
   | callDestroy =>
-    simp [step] at h
-    obtain ⟨h1, rfl⟩ := h
-    have hal := hi.appLock
-    refine ⟨by simp_all [appHolds], thrOk_mono (s := s) rfl (fun _ => rfl) (by simp_all) hi.thrOk, hi.ownerLt, hi.handleLt, by simp, by simp⟩
-  | app =>
-    obtain ⟨hal, hth, hol, hhl, hsp, hde⟩ := hi
+    simp only [step] at h
+    split at h
+    · simp at h; subst h
+      exact inv_dst (o' := s.owner) (su' := s.sysUp) (h' := s.handle) hi (fun _ => Iff.rfl) (Or.inl rfl)
+    · simp at h
+  | app i =>
+    have hown := hl.callerLock i
     simp only [step] at h
     unfold appStep at h
     split at h
-    all_goals (try (split at h))
-    all_goals (try (split at h))
-    all_goals (try (simp at h))
-    all_goals (try (subst h))
-    all_goals (first | (refine ⟨by simp_all [appHolds], thrOk_mono (s := s) rfl (by simp_all [holds, appHolds]) (by simp_all) hth, by simp_all [appHolds], by simp_all, by simp_all, by simp_all⟩; done) | skip)
-    -- rSpawn: the new thread starts with the whole program, not holding L, reinit_pending set
-    rename_i hapc
-    have hpend : s.pending = true := hsp (Or.inr hapc)
-    refine ⟨by simp_all [appHolds], ?_, ?_, by simp, by simp, by simp⟩
-    · intro k r hk
-      simp only [] at hk
-      rcases getElem_opt_snoc hk with ⟨h1, h2⟩ | ⟨h1, h2⟩
-      · obtain ⟨cl, h3, _⟩ := hth k r h2
-        refine ⟨cl, h3, ?_⟩
-        intro _ h5
-        simp at h5
-        omega
-      · subst h1 h2
-        refine ⟨false, ?_, fun _ _ => ⟨hpend, by simp⟩⟩
-        have : holds { s with thrs := s.thrs ++ [c.prog], handle := some s.thrs.length, apc := APc.rUnlock } s.thrs.length = false := by
-          simp only [holds, decide_eq_false_iff_not]
-          intro h6
-          have := hol _ h6
-          omega
-        rw [this]
-        exact hp
-    · intro k hk
-      have := hol k hk
-      simp
-      omega
-  | spawnFail =>
-    obtain ⟨hal, hth, hol, hhl, hsp, hde⟩ := hi
-    have hnone := hh.spawnHandle
+    · simp at h
+    · simp at h
+    · -- rLock
+      rename_i hpi
+      split at h
+      · rename_i hfree
+        simp at h; subst h
+        exact inv_caller_out hi rfl (by simp [hfree])
+      · simp at h
+    · -- rCheck
+      rename_i hpi
+      have ho : s.owner = .caller i := hown.mpr ⟨_, hpi, rfl⟩
+      split at h
+      · simp at h; subst h
+        exact inv_caller_out hi rfl (by simp [ho])
+      · rename_i hpass
+        have hpend : s.pending = false := by
+          cases hq : s.pending with
+          | false => rfl
+          | true => simp [hq] at hpass
+        split at h
+        · simp at h; subst h
+          exact inv_caller_enter (o' := s.owner) hi hpend (fun _ => Iff.rfl)
+        · simp at h; subst h
+          exact inv_caller_enter hi hpend (by simp [ho])
+    · -- rJoin
+      rename_i hpi
+      split at h
+      · simp at h; subst h
+        exact inv_caller_join hi hpi
+      · simp at h
+    · -- rSpawn
+      rename_i hpi
+      simp at h; subst h
+      exact inv_caller_spawn hp hi hpi
+    · -- rUnlock
+      rename_i hpi
+      split at h
+      · rename_i hj
+        have ho : s.owner = .caller i := hown.mpr ⟨_, hpi, by simp [appHolds, hj]⟩
+        simp at h; subst h
+        exact inv_caller_out hi rfl (by simp [ho])
+      · simp at h; subst h
+        exact inv_caller_out (o' := s.owner) hi rfl (fun _ => Iff.rfl)
+  | spawnFail i =>
     simp only [step, spawnFailStep] at h
     split at h
-    all_goals (try (split at h))
-    all_goals (try (split at h))
-    all_goals (try (simp at h))
-    all_goals (try (subst h))
-    all_goals (first | (refine ⟨by simp_all [appHolds], thrOk_mono (s := s) rfl (by simp_all [holds, appHolds]) (by simp_all) hth, by simp_all [appHolds], by simp_all, by simp_all, by simp_all⟩; done) | skip)
+    · rename_i hpi
+      split at h
+      · simp at h; subst h
+        exact inv_caller_spawnFail hh hi hpi
+      · split at h
+        · simp at h; subst h
+          exact inv_caller_spawnFail hh hi hpi
+        · simp at h
+    · simp at h
+  | destroy =>
+    have hdl := hl.dstLock
+    simp only [step] at h
+    unfold dstStep at h
+    split at h
+    · simp at h
+    · -- dLock1
+      split at h
+      · rename_i hfree
+        simp at h; subst h
+        exact inv_dst (su' := s.sysUp) (h' := s.handle) hi (by simp [hfree]) (Or.inl rfl)
+      · simp at h
+    · -- dMark
+      rename_i hpc
+      have ho : s.owner = .destroyer := hdl.mpr (by simp [hpc, dstHolds])
+      split at h
+      · simp at h; subst h
+        exact inv_dst (o' := s.owner) (h' := s.handle) hi (fun _ => Iff.rfl) (Or.inl rfl)
+      · simp at h; subst h
+        exact inv_dst (h' := s.handle) hi (by simp [ho]) (Or.inl rfl)
+    · -- dWait
+      split at h
+      · simp at h; subst h
+        exact inv_dst (o' := s.owner) (su' := s.sysUp) (h' := s.handle) hi (fun _ => Iff.rfl) (Or.inl rfl)
+      · simp at h
+    · -- dJoin
+      split at h
+      · simp at h; subst h
+        exact inv_dst (o' := s.owner) (su' := s.sysUp) hi (fun _ => Iff.rfl) (Or.inr rfl)
+      · simp at h
+    · -- dLock2
+      split at h
+      · rename_i hfree
+        simp at h; subst h
+        exact inv_dst (su' := s.sysUp) (h' := s.handle) hi (by simp [hfree]) (Or.inl rfl)
+      · simp at h
+    · -- dClean
+      rename_i hpc
+      have ho : s.owner = .destroyer := hdl.mpr (by simp [hpc, dstHolds])
+      simp at h; subst h
+      exact inv_dst (su' := s.sysUp) (h' := s.handle) hi (by simp [ho]) (Or.inl rfl)
+    · -- dWaitEv
+      split at h
+      · simp at h; subst h
+        exact inv_dst (o' := s.owner) (su' := s.sysUp) (h' := s.handle) hi (fun _ => Iff.rfl) (Or.inl rfl)
+      · simp at h
+    · simp at h
   | thr k =>
     have hi0 := hi
-    obtain ⟨hal, hth, hol, hhl, hsp, hde⟩ := hi
+    obtain ⟨hth, hol, hhl, hsp, hex⟩ := hi
     simp only [step] at h
     unfold thrStep at h
     split at h
@@ -296,7 +725,7 @@ theorem inv_step (c : Cfg) (hp : NoLockAfterClear c.prog = true) {s s' : St} (st
         split at h
         · simp at h; subst h
           simp [scan] at hsc
-          refine inv_thr (o' := s.owner) (p' := s.pending) hi0 hhk Iff.rfl (fun _ _ => rfl) (Or.inl rfl) ⟨cl, ?_, ?_⟩ hsp
+          refine inv_thr (o' := s.owner) (p' := s.pending) hi0 hhk (fun _ _ => rfl) (Or.inl rfl) ⟨cl, ?_, ?_⟩ hsp
           · simpa [holds] using hsc.2
           · simpa using hcl
         · simp at h
@@ -305,7 +734,7 @@ theorem inv_step (c : Cfg) (hp : NoLockAfterClear c.prog = true) {s s' : St} (st
         · rename_i hfree
           simp at h; subst h
           simp [scan, holds, hfree] at hsc
-          refine inv_thr (o' := .thr k) (p' := s.pending) hi0 hhk (by simp [hfree]) ?_ (Or.inr (Or.inl rfl)) ⟨cl, ?_, ?_⟩ hsp
+          refine inv_thr (o' := .thr k) (p' := s.pending) hi0 hhk ?_ (Or.inr (Or.inl rfl)) ⟨cl, ?_, ?_⟩ hsp
           · intro j hj
             simp [hfree]
             exact fun e => hj e.symm
@@ -317,7 +746,7 @@ theorem inv_step (c : Cfg) (hp : NoLockAfterClear c.prog = true) {s s' : St} (st
         · rename_i hown
           simp at h; subst h
           simp [scan, holds, hown] at hsc
-          refine inv_thr (o' := .free) (p' := s.pending) hi0 hhk (by simp [hown]) ?_ (Or.inr (Or.inr rfl)) ⟨cl, ?_, ?_⟩ hsp
+          refine inv_thr (o' := .free) (p' := s.pending) hi0 hhk ?_ (Or.inr (Or.inr rfl)) ⟨cl, ?_, ?_⟩ hsp
           · intro j hj
             simp [hown]
             exact fun e => hj e.symm
@@ -328,24 +757,26 @@ theorem inv_step (c : Cfg) (hp : NoLockAfterClear c.prog = true) {s s' : St} (st
       · -- flush
         simp at h; subst h
         simp [scan] at hsc
-        refine inv_thr (o' := s.owner) (p' := s.pending) hi0 hhk Iff.rfl (fun _ _ => rfl) (Or.inl rfl) ⟨cl, ?_, ?_⟩ hsp
+        refine inv_thr (o' := s.owner) (p' := s.pending) hi0 hhk (fun _ _ => rfl) (Or.inl rfl) ⟨cl, ?_, ?_⟩ hsp
         · simpa [holds] using hsc
         · simpa using hcl
       · -- clearPending
         simp at h; subst h
         simp [scan] at hsc
         obtain ⟨⟨h1, h2⟩, h3⟩ := hsc
-        refine inv_thr (o' := s.owner) (p' := false) hi0 hhk Iff.rfl (fun _ _ => rfl) (Or.inl rfl) ⟨true, ?_, ?_⟩ ?_
+        refine inv_thr (o' := s.owner) (p' := false) hi0 hhk (fun _ _ => rfl) (Or.inl rfl) ⟨true, ?_, ?_⟩ ?_
         · simpa [holds, h1] using h3
         · simp
-        · intro h4
-          rcases h4 with h4 | h4
-          · exact absurd h4 (hcl h2 hhk).2
-          · have := hh.spawnHandle h4
+        · -- nobody is between the test and the creation: the thread had not reset the flag yet
+          intro j q hj hq
+          cases q <;> simp [inRegion] at hq
+          · have := (hcl h2 hhk).2 j _ hj
+            simp [inJoin] at this
+          · have := hh.spawnHandle j hj
             rw [hhk] at this; cases this
   | cfgFail k =>
     have hi0 := hi
-    obtain ⟨hal, hth, hol, hhl, hsp, hde⟩ := hi
+    obtain ⟨hth, hol, hhl, hsp, hex⟩ := hi
     simp only [step, cfgFailStep] at h
     split at h
     · rename_i rest hk
@@ -357,24 +788,48 @@ theorem inv_step (c : Cfg) (hp : NoLockAfterClear c.prog = true) {s s' : St} (st
       obtain ⟨cl, hsc, hcl⟩ := hth k _ hk
       simp at h; subst h
       simp [scan] at hsc
-      refine inv_thr (o' := s.owner) (p' := s.pending) hi0 hhk Iff.rfl (fun _ _ => rfl) (Or.inl rfl) ⟨cl, ?_, ?_⟩ hsp
+      refine inv_thr (o' := s.owner) (p' := s.pending) hi0 hhk (fun _ _ => rfl) (Or.inl rfl) ⟨cl, ?_, ?_⟩ hsp
       · simpa [holds] using hsc.2
       · simpa using hcl
     · simp at h
 
-theorem reachable_inv {c : Cfg} (hp : NoLockAfterClear c.prog = true) {s : St} (hr : Reachable c s) :
-    HInv s ∧ Inv c s := by
-  induction hr with
-  | init => exact ⟨hinv_init, inv_init c⟩
-  | step st _ h ih => exact ⟨hinv_step c st ih.1 h, inv_step c hp st ih.1 ih.2 h⟩
+/-! ## reachable states satisfy the invariants -/
 
-theorem reachable_hinv {c : Cfg} {s : St} (hr : Reachable c s) : HInv s := by
+theorem reachable_linv {c : Cfg} {s : St} (hr : Reachable c s) : LInv c s := by
   induction hr with
-  | init => exact hinv_init
-  | step st _ h ih => exact hinv_step c st ih h
+  | init n w1 w2 => exact linv_init c n w1 w2
+  | step st _ h ih => exact linv_step c st ih h
+
+theorem reachable_inv {c : Cfg} (hp : NoLockAfterClear c.prog = true) {s : St} (hr : Reachable c s) :
+    LInv c s ∧ HInv s ∧ Inv s := by
+  induction hr with
+  | init n w1 w2 => exact ⟨linv_init c n w1 w2, hinv_init n w1 w2, inv_init n w1 w2⟩
+  | step st _ h ih =>
+    exact ⟨linv_step c st ih.1 h, hinv_step c st ih.2.1 ih.2.2.excl h, inv_step c hp st ih.1 ih.2.1 ih.2.2 h⟩
+
+/-- when ares_reinit() joins and spawns under L, the lock alone keeps the callers apart - whatever the thread does -/
+theorem excl_of_linv {c : Cfg} (hj : c.joinHoldsLock = true) {s : St} (hl : LInv c s) : Excl s.pcs := by
+  intro i j p q hi hp hj' hq
+  have h1 : s.owner = .caller i := (hl.callerLock i).mpr ⟨p, hi, by cases p <;> simp_all [inRegion, appHolds]⟩
+  have h2 : s.owner = .caller j := (hl.callerLock j).mpr ⟨q, hj', by cases q <;> simp_all [inRegion, appHolds]⟩
+  rw [h1] at h2
+  cases h2; rfl
+
+theorem reachable_hinv_locked {c : Cfg} (hj : c.joinHoldsLock = true) {s : St} (hr : Reachable c s) : HInv s := by
+  induction hr with
+  | init n w1 w2 => exact hinv_init n w1 w2
+  | step st hr' h ih => exact hinv_step c st ih (excl_of_linv hj (reachable_linv hr')) h
+
+theorem reachable_hinv {c : Cfg} (hc : c.joinHoldsLock = true ∨ NoLockAfterClear c.prog = true) {s : St}
+    (hr : Reachable c s) : HInv s := by
+  rcases hc with hc | hc
+  · exact reachable_hinv_locked hc hr
+  · exact (reachable_inv hc hr).2.1
+
+/-! ## progress -/
 
 /-- a reload thread that holds L can always take its next step -/
-theorem holder_enabled {c : Cfg} {s : St} (hi : Inv c s) {k : Nat} (hk : s.owner = .thr k) :
+theorem holder_enabled {c : Cfg} {s : St} (hi : Inv s) {k : Nat} (hk : s.owner = .thr k) :
     ∃ s', step c s (.thr k) = some s' := by
   have hlt := hi.ownerLt k hk
   obtain ⟨r, hr⟩ : ∃ r, s.thrs[k]? = some r := ⟨s.thrs[k], by simp [hlt]⟩
@@ -403,89 +858,174 @@ theorem not_joinable {s : St} (hhl : ∀ h, s.handle = some h → h < s.thrs.len
     | nil => simp [hh, hr] at hj
     | cons op rest => exact ⟨h, op, rest, rfl, hr⟩
 
-/-- the application waits for L at `rLock`, `dLock1`, `dLock2`: L is free or its holder can step -/
-theorem lock_wait {c : Cfg} {s : St} (hi : Inv c s) (hna : appHolds c s.apc = false) :
-    s.owner = .free ∨ ∃ k s', step c s (.thr k) = some s' := by
-  cases ho : s.owner with
-  | free => exact Or.inl rfl
-  | app => have := hi.appLock.mp ho; rw [hna] at this; cases this
-  | thr k => obtain ⟨s', h⟩ := holder_enabled hi ho; exact Or.inr ⟨k, s', h⟩
-
-theorem progress {c : Cfg} (hd : c.destroyJoinHoldsLock = false) {s : St} (hh : HInv s) (hi : Inv c s) :
-    terminated s = true ∨ ∃ st s', step c s st = some s' := by
-  cases hapc : s.apc with
-  | idle => exact Or.inr ⟨.callDestroy, _, by simp [step, hapc]; rfl⟩
-  | rLock =>
-    right
-    rcases lock_wait hi (by simp [hapc, appHolds]) with hf | ⟨k, s', h⟩
-    · exact ⟨.app, _, by simp [step, appStep, hapc, hf]; rfl⟩
-    · exact ⟨_, _, h⟩
-  | dLock1 =>
-    right
-    rcases lock_wait hi (by simp [hapc, appHolds]) with hf | ⟨k, s', h⟩
-    · exact ⟨.app, _, by simp [step, appStep, hapc, hf]; rfl⟩
-    · exact ⟨_, _, h⟩
-  | dLock2 =>
-    right
-    rcases lock_wait hi (by simp [hapc, appHolds]) with hf | ⟨k, s', h⟩
-    · exact ⟨.app, _, by simp [step, appStep, hapc, hf]; rfl⟩
-    · exact ⟨_, _, h⟩
+/-- a caller inside ares_reinit() can step unless it waits for L or for the thread it joins -/
+theorem caller_enabled {c : Cfg} {s : St} {i : Nat} {p : APc} (hpi : s.pcs[i]? = some p) (hne : p ≠ .idle)
+    (hlk : p = .rLock → s.owner = .free) (hjn : p = .rJoin → joinable s = true) :
+    ∃ s', step c s (.app i) = some s' := by
+  simp only [step, appStep, hpi]
+  cases p with
+  | idle => exact absurd rfl hne
+  | rLock => simp [hlk rfl]
   | rCheck =>
-    right
-    refine ⟨.app, ?_⟩
-    simp only [step, appStep, hapc]
+    simp only []
     split
     · exact ⟨_, rfl⟩
     · split <;> exact ⟨_, rfl⟩
-  | rSpawn => exact Or.inr ⟨.app, _, by simp [step, appStep, hapc]; rfl⟩
+  | rJoin => simp [hjn rfl]
+  | rSpawn => exact ⟨_, rfl⟩
   | rUnlock =>
-    right
-    refine ⟨.app, ?_⟩
-    simp only [step, appStep, hapc]
+    simp only []
     split <;> exact ⟨_, rfl⟩
+
+/-- the destroyer inside ares_destroy() can step unless it waits for L, for the watcher or for the thread it joins -/
+theorem dst_enabled {c : Cfg} {s : St} (h1 : s.dpc ≠ .idle) (h2 : s.dpc ≠ .done)
+    (hlk : s.dpc = .dLock1 ∨ s.dpc = .dLock2 → s.owner = .free) (hjn : s.dpc = .dJoin → joinable s = true)
+    (hw1 : s.dpc = .dWait → idleBelow s s.waitCfg = true) (hw2 : s.dpc = .dWaitEv → idleBelow s s.waitEv = true) :
+    ∃ s', step c s .destroy = some s' := by
+  simp only [step, dstStep]
+  cases hpc : s.dpc with
+  | idle => exact absurd hpc h1
+  | done => exact absurd hpc h2
+  | dLock1 => simp [hlk (Or.inl hpc)]
+  | dLock2 => simp [hlk (Or.inr hpc)]
   | dMark =>
-    right
-    refine ⟨.app, ?_⟩
-    simp only [step, appStep, hapc]
+    simp only []
     split <;> exact ⟨_, rfl⟩
-  | dClean => exact Or.inr ⟨.app, _, by simp [step, appStep, hapc]; rfl⟩
-  | rJoin =>
-    right
+  | dWait => simp [hw1 hpc]
+  | dJoin => simp [hjn hpc]
+  | dClean => exact ⟨_, rfl⟩
+  | dWaitEv => simp [hw2 hpc]
+
+theorem all_finished_joinable {s : St} (hhl : ∀ h, s.handle = some h → h < s.thrs.length)
+    (hall : s.thrs.all (fun r => r.isEmpty) = true) : joinable s = true := by
+  cases hj : joinable s with
+  | true => rfl
+  | false =>
+    obtain ⟨h, op, rest, _, h2⟩ := not_joinable hhl hj
+    have hm : (op :: rest) ∈ s.thrs := List.mem_iff_getElem?.mpr ⟨h, h2⟩
+    have := List.all_eq_true.mp hall _ hm
+    simp at this
+
+theorem exists_live {s : St} (hall : s.thrs.all (fun r => r.isEmpty) = false) :
+    ∃ (k : Nat) (op : ROp) (rest : List ROp), s.thrs[k]? = some (op :: rest) := by
+  have : ¬ (∀ r ∈ s.thrs, (fun r : List ROp => r.isEmpty) r = true) := by
+    intro h; rw [List.all_eq_true.mpr h] at hall; cases hall
+  apply Classical.byContradiction
+  intro hn
+  apply this
+  intro r hr
+  cases r with
+  | nil => rfl
+  | cons op rest =>
+    obtain ⟨k, hk⟩ := List.mem_iff_getElem?.mp hr
+    exact absurd ⟨k, op, rest, hk⟩ hn
+
+theorem exists_busy {s : St} (hall : s.pcs.all (fun p => p == .idle) = false) :
+    ∃ (i : Nat) (p : APc), s.pcs[i]? = some p ∧ p ≠ APc.idle := by
+  have : ¬ (∀ p ∈ s.pcs, (fun p : APc => p == .idle) p = true) := by
+    intro h; rw [List.all_eq_true.mpr h] at hall; cases hall
+  apply Classical.byContradiction
+  intro hn
+  apply this
+  intro p hp
+  obtain ⟨i, hi⟩ := List.mem_iff_getElem?.mp hp
+  cases hq : (p == APc.idle) with
+  | true => exact hq
+  | false => exact absurd ⟨i, p, hi, by intro e; subst e; simp at hq⟩ hn
+
+theorem idleBelow_of_all {s : St} (hall : s.pcs.all (fun p => p == .idle) = true) (n : Nat) : idleBelow s n = true := by
+  simp only [idleBelow, List.all_eq_true]
+  intro p hp
+  exact List.all_eq_true.mp hall p (List.mem_of_mem_take hp)
+
+/-- the step of the thread that owns L -/
+def ownerStep : Owner → Option Step
+  | .free => none
+  | .caller i => some (.app i)
+  | .destroyer => some .destroy
+  | .thr k => some (.thr k)
+
+/-- Whoever holds L can take its next step - except a caller that joins under L, and then the thread it joins can:
+    that thread has reset reinit_pending, so it needs L no more. -/
+theorem holder_progress {c : Cfg} (hd : c.destroyJoinHoldsLock = false) {s : St} (hl : LInv c s) (hi : Inv s)
+    (hnf : s.owner ≠ .free) :
+    (∃ st s', ownerStep s.owner = some st ∧ step c s st = some s') ∨
+    (∃ i h s', s.owner = .caller i ∧ s.pcs[i]? = some .rJoin ∧ s.handle = some h ∧ step c s (.thr h) = some s') := by
+  cases ho : s.owner with
+  | free => exact absurd ho hnf
+  | thr k => obtain ⟨s', h⟩ := holder_enabled (c := c) hi ho; exact Or.inl ⟨_, _, rfl, h⟩
+  | caller i =>
+    obtain ⟨p, hpi, hp⟩ := (hl.callerLock i).mp ho
     cases hj : joinable s with
-    | true => exact ⟨.app, _, by simp [step, appStep, hapc, hj]; rfl⟩
+    | true =>
+      obtain ⟨s', h⟩ := caller_enabled (c := c) hpi (by intro e; subst e; simp [appHolds] at hp)
+        (by intro e; subst e; simp [appHolds] at hp) (fun _ => hj)
+      exact Or.inl ⟨_, _, rfl, h⟩
     | false =>
-      obtain ⟨h, op, rest, h1, h2⟩ := not_joinable hi.handleLt hj
-      cases ho : s.owner with
-      | free => obtain ⟨s', h3⟩ := free_enabled (c := c) h2 ho; exact ⟨_, _, h3⟩
-      | thr k => obtain ⟨s', h3⟩ := holder_enabled hi ho; exact ⟨_, _, h3⟩
-      | app =>
-        -- the application holds L while joining: the thread has reset reinit_pending, so it needs L no more
+      by_cases hpj : p = .rJoin
+      · subst hpj
+        obtain ⟨h, op, rest, h1, h2⟩ := not_joinable hi.handleLt hj
         obtain ⟨cl, hsc, hcl⟩ := hi.thrOk h _ h2
         have hclt : cl = true := by
           cases cl with
           | true => rfl
-          | false => exact absurd hapc (hcl rfl h1).2
+          | false => have := (hcl rfl h1).2 i _ hpi; simp [inJoin] at this
         subst hclt
-        refine ⟨.thr h, ?_⟩
+        right
+        refine ⟨i, h, ?_⟩
         simp only [step, thrStep, h2]
-        cases op <;> simp [scan, holds, ho] at hsc ⊢
-  | dJoin =>
-    right
-    cases hj : joinable s with
-    | true => exact ⟨.app, _, by simp [step, appStep, hapc, hj]; rfl⟩
+        cases op <;> simp [scan, holds, ho] at hsc ⊢ <;> exact ⟨hpi, h1⟩
+      · obtain ⟨s', h⟩ := caller_enabled (c := c) hpi (by intro e; subst e; simp [appHolds] at hp)
+          (by intro e; subst e; simp [appHolds] at hp) (fun e => absurd e hpj)
+        exact Or.inl ⟨_, _, rfl, h⟩
+  | destroyer =>
+    have hp := hl.dstLock.mp ho
+    obtain ⟨s', h⟩ := dst_enabled (c := c) (s := s) (by intro e; simp [e, dstHolds] at hp)
+      (by intro e; simp [e, dstHolds] at hp) (by intro e; rcases e with e | e <;> simp [e, dstHolds] at hp)
+      (by intro e; simp [e, dstHolds, hd] at hp) (by intro e; simp [e, dstHolds, hd] at hp)
+      (by intro e; simp [e, dstHolds] at hp)
+    exact Or.inl ⟨_, _, rfl, h⟩
+
+/-- the steps by which the environment starts a call (as opposed to a step of a thread that is inside a call, or of
+    a reload thread) -/
+def isCall : Step → Bool
+  | .callReinit _ | .callDestroy => true
+  | _ => false
+
+/-- nothing is in progress: every caller is outside ares_reinit(), ares_destroy() has not been called or has
+    returned, every reload thread has finished -/
+def quiescent (s : St) : Bool :=
+  (s.dpc == .idle || s.dpc == .done) && s.pcs.all (fun p => p == .idle) && s.thrs.all (fun r => r.isEmpty)
+
+theorem ownerStep_not_call {o : Owner} {st : Step} (h : ownerStep o = some st) : isCall st = false := by
+  cases o <;> simp [ownerStep] at h <;> subst h <;> rfl
+
+theorem progress {c : Cfg} (hd : c.destroyJoinHoldsLock = false) {s : St} (hl : LInv c s)
+    (hi : Inv s) : quiescent s = true ∨ ∃ st s', isCall st = false ∧ step c s st = some s' := by
+  by_cases ho : s.owner = .free
+  · cases hall : s.thrs.all (fun r => r.isEmpty) with
     | false =>
-      obtain ⟨h, op, rest, h1, h2⟩ := not_joinable hi.handleLt hj
-      rcases lock_wait hi (by simp [hapc, appHolds, hd]) with hf | ⟨k, s', h3⟩
-      · obtain ⟨s', h3⟩ := free_enabled (c := c) h2 hf; exact ⟨_, _, h3⟩
-      · exact ⟨_, _, h3⟩
-  | done =>
-    left
-    have hn := hi.destroyed (Or.inr (Or.inr hapc))
-    simp only [terminated, hapc, beq_self_eq_true, Bool.true_and, List.all_eq_true]
-    intro r hr
-    obtain ⟨k, hk⟩ := List.mem_iff_getElem?.mp hr
-    have := hh.retired k r hk (by simp [hn])
-    simp [this]
+      obtain ⟨k, op, rest, hk⟩ := exists_live hall
+      obtain ⟨s', h⟩ := free_enabled (c := c) hk ho
+      exact Or.inr ⟨_, _, rfl, h⟩
+    | true =>
+      have hj := all_finished_joinable hi.handleLt hall
+      cases hidle : s.pcs.all (fun p => p == .idle) with
+      | false =>
+        obtain ⟨i, p, hpi, hne⟩ := exists_busy hidle
+        obtain ⟨s', h⟩ := caller_enabled (c := c) hpi hne (fun _ => ho) (fun _ => hj)
+        exact Or.inr ⟨_, _, rfl, h⟩
+      | true =>
+        by_cases h1 : s.dpc = .idle
+        · left; simp [quiescent, h1, hidle, hall]
+        · by_cases h2 : s.dpc = .done
+          · left; simp [quiescent, h2, hidle, hall]
+          · obtain ⟨s', h⟩ := dst_enabled (c := c) h1 h2 (fun _ => ho) (fun _ => hj)
+              (fun _ => idleBelow_of_all hidle _) (fun _ => idleBelow_of_all hidle _)
+            exact Or.inr ⟨_, _, rfl, h⟩
+  · rcases holder_progress hd hl hi ho with ⟨st, s', h0, h⟩ | ⟨_, h, s', _, _, _, h⟩
+    · exact Or.inr ⟨_, _, ownerStep_not_call h0, h⟩
+    · exact Or.inr ⟨_, _, rfl, h⟩
 
 /-! ## Results -/
 
@@ -495,23 +1035,41 @@ def Stuck (c : Cfg) (s : St) : Prop := ∀ st, step c s st = none
 /-- the executable check `stuck` (over the finitely many candidate steps) is sound for `Stuck` -/
 theorem stuck_sound {c : Cfg} {s : St} (h : stuck c s = true) : Stuck c s := by
   intro st
-  simp only [stuck, List.all_eq_true, candidates] at h
+  simp only [stuck, List.all_eq_true] at h
   have hin : st ∈ candidates s → step c s st = none := by
     intro hm
     have := h st hm
     simpa using this
+  have hcaller : ∀ i, i < s.pcs.length → ∀ st', st' ∈ [Step.callReinit i, .app i, .spawnFail i] → st' ∈ candidates s := by
+    intro i hi st' hm
+    simp only [candidates, List.mem_append, List.mem_flatMap, List.mem_range]
+    exact Or.inl (Or.inr ⟨i, hi, hm⟩)
+  have hthr : ∀ k, k < s.thrs.length → ∀ st', st' ∈ [Step.thr k, .cfgFail k] → st' ∈ candidates s := by
+    intro k hk st' hm
+    simp only [candidates, List.mem_append, List.mem_flatMap, List.mem_range]
+    exact Or.inr ⟨k, hk, hm⟩
   cases st with
-  | callReinit => exact hin (by simp [candidates])
   | callDestroy => exact hin (by simp [candidates])
-  | app => exact hin (by simp [candidates])
-  | spawnFail => exact hin (by simp [candidates])
+  | destroy => exact hin (by simp [candidates])
+  | callReinit i =>
+    by_cases hi : i < s.pcs.length
+    · exact hin (hcaller i hi _ (by simp))
+    · simp [step, List.getElem?_eq_none (Nat.le_of_not_lt hi)]
+  | app i =>
+    by_cases hi : i < s.pcs.length
+    · exact hin (hcaller i hi _ (by simp))
+    · simp [step, appStep, List.getElem?_eq_none (Nat.le_of_not_lt hi)]
+  | spawnFail i =>
+    by_cases hi : i < s.pcs.length
+    · exact hin (hcaller i hi _ (by simp))
+    · simp [step, spawnFailStep, List.getElem?_eq_none (Nat.le_of_not_lt hi)]
   | thr k =>
     by_cases hk : k < s.thrs.length
-    · exact hin (by simp only [candidates, List.mem_append, List.mem_flatMap, List.mem_range]; exact Or.inr ⟨k, hk, by simp⟩)
+    · exact hin (hthr k hk _ (by simp))
     · simp [step, thrStep, List.getElem?_eq_none (Nat.le_of_not_lt hk)]
   | cfgFail k =>
     by_cases hk : k < s.thrs.length
-    · exact hin (by simp only [candidates, List.mem_append, List.mem_flatMap, List.mem_range]; exact Or.inr ⟨k, hk, by simp⟩)
+    · exact hin (hthr k hk _ (by simp))
     · simp [step, cfgFailStep, List.getElem?_eq_none (Nat.le_of_not_lt hk)]
 
 theorem reachable_run {c : Cfg} {s s' : St} (hr : Reachable c s) (sched : List Step) (h : run c s sched = some s') :
@@ -525,15 +1083,45 @@ theorem reachable_run {c : Cfg} {s s' : St} (hr : Reachable c s) (sched : List S
     · rename_i s1 h1
       exact ih (Reachable.step st hr h1) h
 
-/-- (a) Deadlock-freedom.  For every thread program that satisfies the syntactic condition `NoLockAfterClear`
-    (lock/unlock alternate and the thread ends without L; reinit_pending is reset exactly where L is held; after
-    the reset there is neither a `lock` nor a `readConfig`, the two operations that need L), whether ares_reinit()
-    joins and spawns holding L or not, and with ares_destroy() joining without L: in every state reachable by any
-    interleaving and any number of ares_reinit() calls, either everything has terminated or some thread can step. -/
+/-- (a) Deadlock-freedom, for ANY number of caller threads.  For every thread program that satisfies the syntactic
+    condition `NoLockAfterClear` (lock/unlock alternate and the thread ends without L; reinit_pending is reset exactly
+    where L is held; after the reset there is neither a `lock` nor a `readConfig`, the two operations that need L),
+    whether ares_reinit() joins and spawns holding L or not, and with ares_destroy() joining without L: in every
+    state reachable - from an initial state with any number of caller threads - by any interleaving of any number
+    of concurrent ares_reinit() calls, the reload threads and one ares_destroy(), either everything has terminated
+    or some thread can step. -/
 theorem deadlock_free (c : Cfg) (hp : NoLockAfterClear c.prog = true) (hd : c.destroyJoinHoldsLock = false)
     {s : St} (hr : Reachable c s) : terminated s = true ∨ ∃ st s', step c s st = some s' := by
-  obtain ⟨hh, hi⟩ := reachable_inv hp hr
-  exact progress hd hh hi
+  obtain ⟨hl, _, hi⟩ := reachable_inv hp hr
+  rcases progress hd hl hi with hq | ⟨st, s', _, h⟩
+  · by_cases h1 : s.dpc = .idle
+    · exact Or.inr ⟨.callDestroy, _, by simp [step, h1]; rfl⟩
+    · left
+      simp only [quiescent, Bool.and_eq_true, Bool.or_eq_true, beq_iff_eq] at hq
+      obtain ⟨⟨h2, h3⟩, h4⟩ := hq
+      rcases h2 with h2 | h2
+      · exact absurd h2 h1
+      · simp [terminated, h2, h3, h4]
+  · exact Or.inr ⟨_, _, h⟩
+
+/-- (a') The same without counting on the environment: a state is not "live" merely because somebody could still
+    START a call (with N callers that would hide a deadlock among the threads that ARE inside a call).  In every
+    reachable state either nothing is in progress (`quiescent`), or a thread that is inside ares_reinit() /
+    ares_destroy() or a reload thread can take a step. -/
+theorem deadlock_free_in_progress (c : Cfg) (hp : NoLockAfterClear c.prog = true)
+    (hd : c.destroyJoinHoldsLock = false) {s : St} (hr : Reachable c s) :
+    quiescent s = true ∨ ∃ st s', isCall st = false ∧ step c s st = some s' := by
+  obtain ⟨hl, _, hi⟩ := reachable_inv hp hr
+  exact progress hd hl hi
+
+/-- Who waits for L waits for a thread that can move: whenever L is owned, its owner can take its next step - except
+    a caller that joins under L, and then the reload thread it joins can (it needs L no more). -/
+theorem lock_holder_progress (c : Cfg) (hp : NoLockAfterClear c.prog = true) (hd : c.destroyJoinHoldsLock = false)
+    {s : St} (hr : Reachable c s) (hnf : s.owner ≠ .free) :
+    (∃ st s', ownerStep s.owner = some st ∧ step c s st = some s') ∨
+    (∃ i h s', s.owner = .caller i ∧ s.pcs[i]? = some .rJoin ∧ s.handle = some h ∧ step c s (.thr h) = some s') := by
+  obtain ⟨hl, _, hi⟩ := reachable_inv hp hr
+  exact holder_progress hd hl hi hnf
 
 /-- the same, as "no reachable state is a deadlock" -/
 theorem no_deadlock (c : Cfg) (hp : NoLockAfterClear c.prog = true) (hd : c.destroyJoinHoldsLock = false)
@@ -558,31 +1146,305 @@ def balanced : List ROp → Bool → Bool
 
 theorem sysconfig_locks_balanced : balanced Cares.Generated.Reinit.sysconfigLocks false = true := by decide
 
-/-- ares_reinit()/ares_destroy() with the reload thread as it is in the source cannot deadlock -/
+/-- ares_reinit() called concurrently from any number of threads, and ares_destroy(), with the reload thread as it
+    is in the source, cannot deadlock -/
 theorem reinit_deadlock_free {s : St} (hr : Reachable Cares.Generated.Reinit.cfg s) :
     terminated s = true ∨ ∃ st s', step Cares.Generated.Reinit.cfg s st = some s' :=
   deadlock_free _ generated_prog_ok generated_destroy_ok hr
 
 /-- (c) the handle discipline (join the stored handle before it is overwritten) never leaves two live reload
-    threads - for every thread program and every configuration -/
-theorem at_most_one_reload_thread {c : Cfg} {s : St} (hr : Reachable c s) {i j : Nat} {ri rj : List ROp}
+    threads.  With one caller this held for every program and configuration; with concurrent callers it needs that
+    the callers are kept apart between the test of reinit_pending and the creation of the thread: by L
+    (`joinHoldsLock`, every program) or by the flag (`NoLockAfterClear`, every configuration).
+    `two_live_threads_without_either` shows that one of the two is necessary. -/
+theorem at_most_one_reload_thread {c : Cfg} (hc : c.joinHoldsLock = true ∨ NoLockAfterClear c.prog = true) {s : St}
+    (hr : Reachable c s) {i j : Nat} {ri rj : List ROp}
     (hi : s.thrs[i]? = some ri) (hj : s.thrs[j]? = some rj) (hli : ri ≠ []) (hlj : rj ≠ []) : i = j := by
-  have hh := reachable_hinv hr
+  have hh := reachable_hinv hc hr
   have h1 : s.handle = some i := Classical.byContradiction fun hne => hli (hh.retired i ri hi hne)
   have h2 : s.handle = some j := Classical.byContradiction fun hne => hlj (hh.retired j rj hj hne)
   rw [h1] at h2
   exact Option.some.inj h2
 
 /-- … and a reload thread that is not the one the stored handle refers to has finished -/
-theorem live_thread_is_handle {c : Cfg} {s : St} (hr : Reachable c s) {k : Nat} {r : List ROp}
-    (hk : s.thrs[k]? = some r) (hl : r ≠ []) : s.handle = some k :=
-  Classical.byContradiction fun hne => hl ((reachable_hinv hr).retired k r hk hne)
+theorem live_thread_is_handle {c : Cfg} (hc : c.joinHoldsLock = true ∨ NoLockAfterClear c.prog = true) {s : St}
+    (hr : Reachable c s) {k : Nat} {r : List ROp} (hk : s.thrs[k]? = some r) (hl : r ≠ []) : s.handle = some k :=
+  Classical.byContradiction fun hne => hl ((reachable_hinv hc hr).retired k r hk hne)
 
-/-- while the application is between its test of reinit_pending and the creation of the new thread, the flag stays
-    set (no old reload thread resets it late) -/
+/-- at most one caller at a time is between its test of reinit_pending and the creation of the new thread -/
+theorem one_caller_in_region {c : Cfg} (hc : c.joinHoldsLock = true ∨ NoLockAfterClear c.prog = true) {s : St}
+    (hr : Reachable c s) {i j : Nat} {p q : APc} (hi : s.pcs[i]? = some p) (hj : s.pcs[j]? = some q)
+    (hp : p = .rJoin ∨ p = .rSpawn) (hq : q = .rJoin ∨ q = .rSpawn) : i = j := by
+  have he : Excl s.pcs := by
+    rcases hc with hc | hc
+    · exact excl_of_linv hc (reachable_linv hr)
+    · exact (reachable_inv hc hr).2.2.excl
+  exact he i j p q hi (by rcases hp with rfl | rfl <;> rfl) hj (by rcases hq with rfl | rfl <;> rfl)
+
+/-- while a caller is between its test of reinit_pending and the creation of the new thread, the flag stays
+    set (no old reload thread resets it late, and no other caller's failed ares_thread_create() either) -/
 theorem pending_stable {c : Cfg} (hp : NoLockAfterClear c.prog = true) {s : St} (hr : Reachable c s)
-    (h : s.apc = .rJoin ∨ s.apc = .rSpawn) : s.pending = true :=
-  (reachable_inv hp hr).2.spawnPend h
+    {i : Nat} {p : APc} (hi : s.pcs[i]? = some p) (h : p = .rJoin ∨ p = .rSpawn) : s.pending = true :=
+  (reachable_inv hp hr).2.2.spawnPend i p hi (by rcases h with rfl | rfl <;> rfl)
+
+/-- the channel lock is a mutex: two callers are never both at program points of ares_reinit() where L is held
+    (every program, every configuration) -/
+theorem lock_exclusive {c : Cfg} {s : St} (hr : Reachable c s) {i j : Nat} {p q : APc}
+    (hi : s.pcs[i]? = some p) (hj : s.pcs[j]? = some q) (hp : appHolds c p = true) (hq : appHolds c q = true) :
+    i = j := by
+  have hl := reachable_linv hr
+  have h1 := (hl.callerLock i).mpr ⟨p, hi, hp⟩
+  have h2 := (hl.callerLock j).mpr ⟨q, hj, hq⟩
+  rw [h1] at h2
+  cases h2; rfl
+
+/-! ### (e) the wait in a join cannot be permanent (without an unfair scheduler) -/
+
+/-- For the reload thread the stored handle refers to - the only thread anybody ever joins - in every reachable
+    state: it has finished, or it can take its next step, or L is held by ANOTHER thread that can take ITS next step
+    (so that one is not a caller waiting in its join, and the reload thread is not blocked behind a blocked thread).
+    In particular this holds whenever a caller waits at `rJoin` or the destroyer at `dJoin`. -/
+theorem join_progress (c : Cfg) (hp : NoLockAfterClear c.prog = true) (hd : c.destroyJoinHoldsLock = false)
+    {s : St} (hr : Reachable c s) {h : Nat} {r : List ROp} (hh : s.handle = some h) (hk : s.thrs[h]? = some r) :
+    r = [] ∨ (∃ s', step c s (.thr h) = some s') ∨
+      (∃ st s', ownerStep s.owner = some st ∧ st ≠ .thr h ∧ step c s st = some s') := by
+  obtain ⟨hl, _, hi⟩ := reachable_inv hp hr
+  cases r with
+  | nil => exact Or.inl rfl
+  | cons op rest =>
+    right
+    by_cases ho : s.owner = .free
+    · exact Or.inl (free_enabled hk ho)
+    · rcases holder_progress hd hl hi ho with ⟨st, s', h1, h2⟩ | ⟨_, h', s', _, _, h3, h4⟩
+      · by_cases hst : st = .thr h
+        · subst hst; exact Or.inl ⟨_, h2⟩
+        · exact Or.inr ⟨st, s', h1, hst, h2⟩
+      · rw [hh] at h3; cases h3
+        exact Or.inl ⟨_, h4⟩
+
+/-- With ares_reinit() as it is in the tree (join under L): whenever a caller waits in its join, the reload thread
+    it joins has finished or can take its next step - nothing can hold it up, the caller itself holds L and the
+    thread needs L no more. -/
+theorem join_terminates (c : Cfg) (hp : NoLockAfterClear c.prog = true) (hj : c.joinHoldsLock = true)
+    {s : St} (hr : Reachable c s) {i h : Nat} {r : List ROp} (hw : s.pcs[i]? = some .rJoin)
+    (hh : s.handle = some h) (hk : s.thrs[h]? = some r) : r = [] ∨ ∃ s', step c s (.thr h) = some s' := by
+  obtain ⟨hl, _, hi⟩ := reachable_inv hp hr
+  have ho : s.owner = .caller i := (hl.callerLock i).mpr ⟨_, hw, by simp [appHolds, hj]⟩
+  cases r with
+  | nil => exact Or.inl rfl
+  | cons op rest =>
+    right
+    obtain ⟨cl, hsc, hcl⟩ := hi.thrOk h _ hk
+    have hclt : cl = true := by
+      cases cl with
+      | true => rfl
+      | false => have := (hcl rfl hh).2 i _ hw; simp [inJoin] at this
+    subst hclt
+    simp only [step, thrStep, hk]
+    cases op <;> simp [scan, holds, ho] at hsc ⊢
+
+/-! ### (f) after ares_destroy()'s join no reload thread is left - even with calls in progress -/
+
+/-- program points of ares_reinit() after the test (L is held there when `joinHoldsLock`) -/
+def inCrit : APc → Bool
+  | .rJoin | .rSpawn | .rUnlock => true
+  | _ => false
+
+/-- ares_destroy() has reset sys_up -/
+def marked : DPc → Bool
+  | .idle | .dLock1 | .dMark => false
+  | _ => true
+
+/-- ares_destroy() is past its join -/
+def afterJoin : DPc → Bool
+  | .dLock2 | .dClean | .dWaitEv | .done => true
+  | _ => false
+
+structure DInv (s : St) : Prop where
+  up : s.sysUp = !marked s.dpc
+  quiet : s.sysUp = false → NoneAt inCrit s.pcs
+  joined : afterJoin s.dpc = true → s.handle = none
+
+theorem dinv_init (n w1 w2 : Nat) : DInv (St.init n w1 w2) := by
+  refine ⟨by simp [St.init, marked], by simp [St.init], by simp [St.init, afterJoin]⟩
+
+theorem dinv_step (c : Cfg) (hj : c.joinHoldsLock = true) {s s' : St} (st : Step) (hl : LInv c s) (hi : DInv s)
+    (h : step c s st = some s') : DInv s' := by
+  obtain ⟨hup, hq, hjd⟩ := hi
+  -- a caller past the test means sys_up is still set, and ares_destroy() is not past its join
+  have hcrit : ∀ (i : Nat) (p : APc), s.pcs[i]? = some p → inCrit p = true → s.sysUp = true ∧ afterJoin s.dpc = false := by
+    intro i p hpi hp
+    have h1 : s.sysUp = true := by
+      cases hs : s.sysUp with
+      | true => rfl
+      | false => have := hq hs i p hpi; rw [hp] at this; cases this
+    refine ⟨h1, ?_⟩
+    rw [hup] at h1
+    cases hd : s.dpc <;> simp_all [marked, afterJoin]
+  cases st with
+  | callReinit i =>
+    simp only [step] at h
+    split at h
+    · simp at h; subst h
+      exact ⟨hup, fun hs => noneAt_set (hq hs) rfl, hjd⟩
+    · simp at h
+  | callDestroy =>
+    simp only [step] at h
+    split at h
+    · rename_i hc
+      simp at h; subst h
+      refine ⟨?_, hq, by simp [afterJoin]⟩
+      simp only []; rw [hup, hc]; simp [marked]
+    · simp at h
+  | app i =>
+    have keep : ∀ s'' : St, s''.sysUp = s.sysUp → s''.dpc = s.dpc → (s.sysUp = false → NoneAt inCrit s''.pcs) →
+        (afterJoin s.dpc = true → s''.handle = none) → DInv s'' := by
+      intro s'' e1 e2 e3 e4
+      exact ⟨by rw [e1, e2]; exact hup, by rw [e1]; exact e3, by rw [e2]; exact e4⟩
+    have hup' : ∀ hs : s.sysUp = true, ∀ pcs' : List APc, s.sysUp = false → NoneAt inCrit pcs' := by
+      intro hs _ hs'; rw [hs] at hs'; cases hs'
+    simp only [step] at h
+    unfold appStep at h
+    split at h
+    · simp at h
+    · simp at h
+    · split at h
+      · simp at h; subst h
+        exact keep _ rfl rfl (fun hs => noneAt_set (hq hs) rfl) hjd
+      · simp at h
+    · split at h
+      · simp at h; subst h
+        exact keep _ rfl rfl (fun hs => noneAt_set (hq hs) rfl) hjd
+      · rename_i hpass
+        have hs : s.sysUp = true := by
+          cases hs : s.sysUp with
+          | true => rfl
+          | false => simp [hs] at hpass
+        try simp only [hj, if_true] at h
+        simp at h; subst h
+        exact keep _ rfl rfl (hup' hs _) hjd
+    · rename_i hpi
+      have hs := (hcrit i _ hpi rfl).1
+      split at h
+      · simp at h; subst h
+        exact keep _ rfl rfl (hup' hs _) (fun _ => rfl)
+      · simp at h
+    · rename_i hpi
+      obtain ⟨hs, ha⟩ := hcrit i _ hpi rfl
+      simp at h; subst h
+      exact keep _ rfl rfl (hup' hs _) (fun ha' => by rw [ha] at ha'; cases ha')
+    · try simp only [hj, if_true] at h
+      simp at h; subst h
+      exact keep _ rfl rfl (fun hs => noneAt_set (hq hs) rfl) hjd
+  | spawnFail i =>
+    simp only [step, spawnFailStep] at h
+    split at h
+    · rename_i hpi
+      have hs := (hcrit i _ hpi rfl).1
+      have : ∀ s'' : St, s''.sysUp = s.sysUp → s''.dpc = s.dpc → s''.handle = s.handle → DInv s'' := by
+        intro s'' e1 e2 e3
+        exact ⟨by rw [e1, e2]; exact hup, (fun hs' => by rw [e1, hs] at hs'; cases hs'), by rw [e2, e3]; exact hjd⟩
+      try simp only [hj, if_true] at h
+      simp at h; subst h; exact this _ rfl rfl rfl
+    · simp at h
+  | destroy =>
+    simp only [step] at h
+    unfold dstStep at h
+    split at h
+    · simp at h
+    · rename_i hpc
+      split at h
+      · simp at h; subst h
+        refine ⟨?_, hq, by simp [afterJoin]⟩
+        simp only []; rw [hup, hpc]; simp [marked]
+      · simp at h
+    · -- dMark: the destroyer holds L, so no caller is past its test
+      rename_i hpc
+      have ho : s.owner = .destroyer := hl.dstLock.mpr (by simp [hpc, dstHolds])
+      have hnone : NoneAt inCrit s.pcs := by
+        intro j q hjq
+        cases hq' : inCrit q with
+        | false => rfl
+        | true =>
+          have := (hl.callerLock j).mpr ⟨q, hjq, by cases q <;> simp_all [inCrit, appHolds]⟩
+          rw [ho] at this; cases this
+      split at h
+      · simp at h; subst h
+        exact ⟨by simp [marked], fun _ => hnone, by simp [afterJoin]⟩
+      · simp at h; subst h
+        exact ⟨by simp [marked], fun _ => hnone, by simp [afterJoin]⟩
+    · rename_i hpc
+      split at h
+      · simp at h; subst h
+        refine ⟨?_, hq, by simp [afterJoin]⟩
+        simp only []; rw [hup, hpc]; simp [marked]
+      · simp at h
+    · rename_i hpc
+      split at h
+      · simp at h; subst h
+        refine ⟨?_, hq, fun _ => rfl⟩
+        simp only []; rw [hup, hpc]; cases c.destroyJoinHoldsLock <;> simp [marked]
+      · simp at h
+    · rename_i hpc
+      split at h
+      · simp at h; subst h
+        refine ⟨?_, hq, fun _ => hjd (by simp [hpc, afterJoin])⟩
+        simp only []; rw [hup, hpc]; simp [marked]
+      · simp at h
+    · rename_i hpc
+      simp at h; subst h
+      refine ⟨?_, hq, fun _ => hjd (by simp [hpc, afterJoin])⟩
+      simp only []; rw [hup, hpc]; simp [marked]
+    · rename_i hpc
+      split at h
+      · simp at h; subst h
+        refine ⟨?_, hq, fun _ => hjd (by simp [hpc, afterJoin])⟩
+        simp only []; rw [hup, hpc]; simp [marked]
+      · simp at h
+    · simp at h
+  | thr k =>
+    simp only [step] at h
+    obtain ⟨_, _, _, _, h3, h4, h5, h6, _⟩ := thrStep_some h
+    exact ⟨by rw [h5, h6]; exact hup, by rw [h4, h6]; exact hq, by rw [h3, h5]; exact hjd⟩
+  | cfgFail k =>
+    simp only [step, cfgFailStep] at h
+    split at h
+    · simp at h; subst h; exact ⟨hup, hq, hjd⟩
+    · simp at h
+
+theorem reachable_dinv {c : Cfg} (hj : c.joinHoldsLock = true) {s : St} (hr : Reachable c s) : DInv s := by
+  induction hr with
+  | init n w1 w2 => exact dinv_init n w1 w2
+  | step st hr' h ih => exact dinv_step c hj st (reachable_linv hr') ih h
+
+/-- With ares_reinit() as it is in the tree (test, join and creation in ONE locked section), for every thread
+    program: once ares_destroy() is past its join, there is no stored handle, every reload thread ever created has
+    finished, and no caller is past its test of sys_up (so none will create another thread) - also when calls were
+    in progress while ares_destroy() was called.  `upstream_thread_outlives_destroy`: not so when ares_reinit()
+    unlocks before its join. -/
+theorem destroy_joins_last_thread {c : Cfg} (hj : c.joinHoldsLock = true) {s : St} (hr : Reachable c s)
+    (hd : s.dpc = .dLock2 ∨ s.dpc = .dClean ∨ s.dpc = .dWaitEv ∨ s.dpc = .done) :
+    s.handle = none ∧ (∀ (k : Nat) (r : List ROp), s.thrs[k]? = some r → r = []) ∧
+      (∀ (i : Nat) (p : APc), s.pcs[i]? = some p → p = .idle ∨ p = .rLock ∨ p = .rCheck) ∧ s.sysUp = false := by
+  have hdi := reachable_dinv hj hr
+  have hh := reachable_hinv_locked hj hr
+  have ha : afterJoin s.dpc = true := by rcases hd with h | h | h | h <;> simp [h, afterJoin]
+  have hn := hdi.joined ha
+  have hs : s.sysUp = false := by
+    rw [hdi.up]; rcases hd with h | h | h | h <;> simp [h, marked]
+  refine ⟨hn, fun k r hk => hh.retired k r hk (by simp [hn]), ?_, hs⟩
+  intro i p hpi
+  have := hdi.quiet hs i p hpi
+  cases p <;> simp_all [inCrit]
+
+/-- … and while ares_destroy() is in its join (or anywhere after it has reset sys_up) no caller is in, or past, the
+    join of ares_reinit(): the two `ares_thread_join(channel->reinit_thread)` never run concurrently -/
+theorem destroy_join_exclusive {c : Cfg} (hj : c.joinHoldsLock = true) {s : St} (hr : Reachable c s)
+    (hd : s.dpc = .dJoin) {i : Nat} {p : APc} (hi : s.pcs[i]? = some p) : p ≠ .rJoin ∧ p ≠ .rSpawn ∧ p ≠ .rUnlock := by
+  have hdi := reachable_dinv hj hr
+  have hs : s.sysUp = false := by rw [hdi.up, hd]; rfl
+  have := hdi.quiet hs i p hi
+  cases p <;> simp_all [inCrit]
 
 /-! ### (d) The regression: reinit_pending reset in a short locked section at the start of the thread -/
 
@@ -591,25 +1453,41 @@ def regressionProg : List ROp := [.lock, .clearPending, .unlock, .readConfig, .l
 
 def regressionCfg : Cfg := { prog := regressionProg, joinHoldsLock := true, destroyJoinHoldsLock := false }
 
-/-- first ares_reinit() completes; its thread resets reinit_pending, reads the configuration and is about to
-    take L again; a second ares_reinit() gets past the test and joins the thread while holding L -/
+/-- ONE caller.  Its first ares_reinit() completes; the thread resets reinit_pending, reads the configuration and is
+    about to take L again; the second ares_reinit() gets past the test and joins the thread while holding L; the
+    destroyer has called ares_destroy() and waits for L as well -/
 def regressionSchedule : List Step :=
-  [.callReinit, .app, .app, .app, .app, .app, .thr 0, .thr 0, .thr 0, .thr 0, .callReinit, .app, .app]
+  [.callReinit 0, .app 0, .app 0, .app 0, .app 0, .app 0, .thr 0, .thr 0, .thr 0, .thr 0,
+   .callReinit 0, .app 0, .app 0, .callDestroy]
 
 theorem regression_rejected : NoLockAfterClear regressionProg = false := by decide
 
 theorem regression_deadlocks :
-    ∃ s, run regressionCfg St.init regressionSchedule = some s ∧ Reachable regressionCfg s ∧
+    ∃ s, run regressionCfg (St.init 1) regressionSchedule = some s ∧ Reachable regressionCfg s ∧
       Stuck regressionCfg s ∧ terminated s = false := by
-  have h : ∃ s, run regressionCfg St.init regressionSchedule = some s ∧ stuck regressionCfg s = true ∧
+  have h : ∃ s, run regressionCfg (St.init 1) regressionSchedule = some s ∧ stuck regressionCfg s = true ∧
       terminated s = false := by decide
   obtain ⟨s, h1, h2, h3⟩ := h
-  exact ⟨s, h1, reachable_run Reachable.init _ h1, stuck_sound h2, h3⟩
+  exact ⟨s, h1, reachable_run (Reachable.init 1 0 0) _ h1, stuck_sound h2, h3⟩
+
+/-- the same with THREE callers: caller 0 (say the application) started the reload; caller 1 (say the
+    configuration-change watcher) gets past the test and joins under L; caller 2 and the destroyer wait for L -/
+def regressionSchedule3 : List Step :=
+  [.callReinit 0, .app 0, .app 0, .app 0, .app 0, .app 0, .thr 0, .thr 0, .thr 0, .thr 0,
+   .callReinit 1, .callReinit 2, .callReinit 0, .app 1, .app 1, .callDestroy]
+
+theorem regression_deadlocks_concurrent :
+    ∃ s, run regressionCfg (St.init 3) regressionSchedule3 = some s ∧ Reachable regressionCfg s ∧
+      Stuck regressionCfg s ∧ terminated s = false := by
+  have h : ∃ s, run regressionCfg (St.init 3) regressionSchedule3 = some s ∧ stuck regressionCfg s = true ∧
+      terminated s = false := by decide
+  obtain ⟨s, h1, h2, h3⟩ := h
+  exact ⟨s, h1, reachable_run (Reachable.init 3 0 0) _ h1, stuck_sound h2, h3⟩
 
 /-- the same reload thread is fine when ares_reinit() joins without L (upstream shape): the deadlock needs both -/
 theorem regression_needs_join_under_lock :
-    run { regressionCfg with joinHoldsLock := false } St.init regressionSchedule ≠ none ∧
-    (∀ s, run { regressionCfg with joinHoldsLock := false } St.init regressionSchedule = some s →
+    run { regressionCfg with joinHoldsLock := false } (St.init 1) regressionSchedule ≠ none ∧
+    (∀ s, run { regressionCfg with joinHoldsLock := false } (St.init 1) regressionSchedule = some s →
       stuck { regressionCfg with joinHoldsLock := false } s = false) := by decide
 
 /-! ### ares_destroy() joining inside its locked section deadlocks with the reload thread as it is -/
@@ -622,50 +1500,131 @@ def refCfg : Cfg :=
 def destroyLockedCfg : Cfg := { refCfg with destroyJoinHoldsLock := true }
 
 def destroyLockedSchedule : List Step :=
-  [.callReinit, .app, .app, .app, .app, .app, .thr 0, .callDestroy, .app, .app]
+  [.callReinit 0, .app 0, .app 0, .app 0, .app 0, .app 0, .thr 0, .callDestroy, .destroy, .destroy, .destroy]
 
 theorem destroy_join_under_lock_deadlocks :
-    ∃ s, run destroyLockedCfg St.init destroyLockedSchedule = some s ∧ Reachable destroyLockedCfg s ∧
+    ∃ s, run destroyLockedCfg (St.init 1) destroyLockedSchedule = some s ∧ Reachable destroyLockedCfg s ∧
       Stuck destroyLockedCfg s ∧ terminated s = false := by
-  have h : ∃ s, run destroyLockedCfg St.init destroyLockedSchedule = some s ∧ stuck destroyLockedCfg s = true ∧
+  have h : ∃ s, run destroyLockedCfg (St.init 1) destroyLockedSchedule = some s ∧ stuck destroyLockedCfg s = true ∧
       terminated s = false := by decide
   obtain ⟨s, h1, h2, h3⟩ := h
-  exact ⟨s, h1, reachable_run Reachable.init _ h1, stuck_sound h2, h3⟩
+  exact ⟨s, h1, reachable_run (Reachable.init 1 0 0) _ h1, stuck_sound h2, h3⟩
+
+/-! ### without L and without the flag discipline two concurrent callers do leave two live reload threads -/
+
+/-- a thread that resets reinit_pending twice (not holding L), and ares_reinit() joining without L -/
+def doubleClearCfg : Cfg := { prog := [.clearPending, .clearPending, .flush], joinHoldsLock := false, destroyJoinHoldsLock := false }
+
+/-- caller 0 gets past the test after the first reset, caller 1 after the second; both find the old thread finished
+    and both create a new one -/
+def doubleClearSchedule : List Step :=
+  [.callReinit 0, .app 0, .app 0, .app 0, .app 0, .app 0, .thr 0,
+   .callReinit 0, .app 0, .app 0, .thr 0, .callReinit 1, .app 1, .app 1, .thr 0,
+   .app 0, .app 1, .app 0, .app 1]
+
+theorem two_live_threads_without_either :
+    doubleClearCfg.joinHoldsLock = false ∧ NoLockAfterClear doubleClearCfg.prog = false ∧
+    ∃ s, run doubleClearCfg (St.init 2) doubleClearSchedule = some s ∧ Reachable doubleClearCfg s ∧
+      s.thrs[1]? = some doubleClearCfg.prog ∧ s.thrs[2]? = some doubleClearCfg.prog := by
+  have h : ∃ s, run doubleClearCfg (St.init 2) doubleClearSchedule = some s ∧
+      s.thrs[1]? = some doubleClearCfg.prog ∧ s.thrs[2]? = some doubleClearCfg.prog := by decide
+  obtain ⟨s, h1, h2⟩ := h
+  exact ⟨by decide, by decide, s, h1, reachable_run (Reachable.init 2 0 0) _ h1, h2⟩
+
+/-! ### upstream shape: a call in progress can create a reload thread after ares_destroy() has joined -/
+
+/-- caller 0 (not one ares_destroy() waits for) gets past the test and unlocks; ares_destroy() runs to its end (there
+    is nothing to join yet); the caller creates the thread -/
+def outliveSchedule : List Step :=
+  [.callReinit 0, .app 0, .app 0, .callDestroy, .destroy, .destroy, .destroy, .destroy, .destroy, .destroy, .destroy,
+   .app 0, .app 0, .app 0]
+
+theorem upstream_thread_outlives_destroy :
+    ∃ s, run { refCfg with joinHoldsLock := false } (St.init 1) outliveSchedule = some s ∧
+      Reachable { refCfg with joinHoldsLock := false } s ∧ s.dpc = .done ∧ s.thrs = [refCfg.prog] := by
+  have h : ∃ s, run { refCfg with joinHoldsLock := false } (St.init 1) outliveSchedule = some s ∧
+      s.dpc = .done ∧ s.thrs = [refCfg.prog] := by decide
+  obtain ⟨s, h1, h2⟩ := h
+  exact ⟨s, h1, reachable_run (Reachable.init 1 0 0) _ h1, h2⟩
 
 /-! ### Non-vacuity: concrete runs of the system with the program of the tree (`refCfg`) -/
 
-/-- two ares_reinit() calls, the second one joins the (finished) first thread and spawns a second one; then
-    ares_destroy() joins that one: the run exists and ends with everything terminated -/
-example : (run refCfg St.init
-    [.callReinit, .app, .app, .app, .app, .app, .thr 0, .thr 0, .thr 0, .thr 0, .thr 0,
-     .callReinit, .app, .app, .app, .app, .app, .thr 1, .thr 1, .thr 1, .thr 1, .thr 1,
-     .callDestroy, .app, .app, .app, .app, .app]).map (fun s => (terminated s, s.thrs.length, s.pending)) =
-    some (true, 2, false) := by decide
+/-- TWO callers whose ares_reinit() calls overlap: both have called; caller 0 holds L (at its test), caller 1 is
+    blocked on L (`.app 1` is not enabled); caller 0 creates thread 0 and returns; caller 1 gets L, sees
+    reinit_pending and returns; the thread runs; ares_destroy() joins it: everything terminated -/
+example : (run refCfg (St.init 2) [.callReinit 0, .callReinit 1, .app 0]).map
+    (fun s => (s.owner, s.pcs, step refCfg s (.app 1))) = some (.caller 0, [.rCheck, .rLock], none) := by decide
 
-/-- the second ares_reinit() arrives while the first thread is still reading: it sees reinit_pending and returns;
-    ares_destroy() is called while the thread is live and has to wait at its join (the `.app` step is not
-    enabled there) until the thread has finished -/
-example : (run refCfg St.init
-    [.callReinit, .app, .app, .app, .app, .app, .thr 0, .callReinit, .app, .app,
-     .callDestroy, .app, .app]).map (fun s => (s.apc, step refCfg s .app, s.thrs.length)) =
+example : (run refCfg (St.init 2)
+    [.callReinit 0, .callReinit 1, .app 0, .app 0, .app 0, .app 0, .app 0, .app 1, .app 1,
+     .thr 0, .thr 0, .thr 0, .thr 0, .thr 0,
+     .callDestroy, .destroy, .destroy, .destroy, .destroy, .destroy, .destroy, .destroy]).map
+    (fun s => (terminated s, s.thrs.length, s.pending)) = some (true, 1, false) := by decide
+
+/-- overlapping calls, second shape: caller 1 calls while thread 0 (created by caller 0) still holds L; it waits for
+    L, then gets past the test (the thread has reset reinit_pending), joins the finished thread under L and creates
+    thread 1 while caller 0 is inside a third call, blocked on L -/
+def overlapSchedule : List Step :=
+  [.callReinit 0, .app 0, .app 0, .app 0, .app 0, .app 0, .thr 0, .thr 0, .thr 0, .thr 0,
+   .callReinit 1, .thr 0, .app 1, .app 1, .callReinit 0, .app 1, .app 1]
+
+example : (run refCfg (St.init 2) overlapSchedule).map
+    (fun s => (s.owner, s.pcs, (step refCfg s (.app 0)).isSome)) =
+    some (.caller 1, [.rLock, .rUnlock], false) := by decide
+
+example : (run refCfg (St.init 2) overlapSchedule).map (fun s => (s.handle, s.thrs)) =
+    some (some 1, [[], refCfg.prog]) := by decide
+
+/-- the tree's program followed by one more operation after its last unlock -/
+def tailCfg : Cfg := { refCfg with prog := [.readConfig, .lock, .flush, .clearPending, .unlock, .flush] }
+
+/-- a caller waits in its join UNDER L for a thread that is still running (with `refCfg` the thread's last operation
+    is its unlock, so a join under L never has to wait; with `tailCfg` it does): the thread has reset
+    reinit_pending and can proceed without L (`join_terminates`) -/
+example : (run tailCfg (St.init 2)
+    [.callReinit 0, .app 0, .app 0, .app 0, .app 0, .app 0, .thr 0, .thr 0, .thr 0, .thr 0, .thr 0,
+     .callReinit 1, .app 1, .app 1]).map
+    (fun s => (s.owner, s.pcs, s.thrs, (step tailCfg s (.app 1)).isSome, (step tailCfg s (.thr 0)).isSome)) =
+    some (.caller 1, [.idle, .rJoin], [[.flush]], false, true) := by decide
+
+/-- upstream shape (join without L): caller 0 waits in its join without L while caller 1 comes and goes -/
+example : (run { refCfg with joinHoldsLock := false } (St.init 2)
+    [.callReinit 0, .app 0, .app 0, .app 0, .app 0, .app 0, .thr 0, .thr 0, .thr 0, .thr 0,
+     .callReinit 0, .callReinit 1, .thr 0, .app 0, .app 0, .app 1, .app 1]).map
+    (fun s => (s.owner, s.pcs, s.pending)) = some (.free, [.rJoin, .idle], true) := by decide
+
+/-- a call in progress when ares_destroy() is called runs on: it sees sys_up == FALSE and returns; ares_destroy()
+    waits (at `dWait`, not enabled) for the watcher (caller 0, `waitCfg = 1`) to be outside ares_reinit() -/
+example : (run refCfg (St.init 1 1 1)
+    [.callReinit 0, .callDestroy, .destroy, .destroy]).map
+    (fun s => (s.dpc, s.pcs, step refCfg s .destroy, step refCfg s (.callReinit 0))) =
+    some (.dWait, [.rLock], none, none) := by decide
+
+example : (run refCfg (St.init 1 1 1)
+    [.callReinit 0, .callDestroy, .destroy, .destroy, .app 0, .app 0,
+     .destroy, .destroy, .destroy, .destroy, .destroy]).map (fun s => (terminated s, s.thrs.length)) =
+    some (true, 0) := by decide
+
+/-- ares_destroy() is called while the reload thread is live and has to wait at its join (`.destroy` is not enabled
+    there) until the thread has finished -/
+example : (run refCfg (St.init 1)
+    [.callReinit 0, .app 0, .app 0, .app 0, .app 0, .app 0, .thr 0, .callReinit 0, .app 0, .app 0,
+     .callDestroy, .destroy, .destroy, .destroy]).map (fun s => (s.dpc, step refCfg s .destroy, s.thrs.length)) =
     some (.dJoin, none, 1) := by decide
 
-example : (run refCfg St.init
-    [.callReinit, .app, .app, .app, .app, .app, .thr 0, .callReinit, .app, .app,
-     .callDestroy, .app, .app, .thr 0, .thr 0, .thr 0, .thr 0, .app, .app, .app]).map terminated = some true := by decide
-
-/-- the application blocks on L while the reload thread holds it, and proceeds afterwards -/
-example : (run refCfg St.init
-    [.callReinit, .app, .app, .app, .app, .app, .thr 0, .thr 0, .callReinit]).map
-      (fun s => (s.owner, step refCfg s .app, (step refCfg s (.thr 0)).isSome)) = some (.thr 0, none, true) := by decide
+example : (run refCfg (St.init 1)
+    [.callReinit 0, .app 0, .app 0, .app 0, .app 0, .app 0, .thr 0, .callReinit 0, .app 0, .app 0,
+     .callDestroy, .destroy, .destroy, .destroy, .thr 0, .thr 0, .thr 0, .thr 0,
+     .destroy, .destroy, .destroy, .destroy]).map terminated = some true := by decide
 
 /-- the invariant is satisfiable and the hypothesis of `deadlock_free` holds for it -/
-example : ∃ s, Reachable refCfg s ∧ s.thrs.length = 2 ∧ s.apc = .rUnlock := by
-  have h : ∃ s, run refCfg St.init
-      [.callReinit, .app, .app, .app, .app, .app, .thr 0, .thr 0, .thr 0, .thr 0, .thr 0,
-       .callReinit, .app, .app, .app, .app] = some s ∧ s.thrs.length = 2 ∧ s.apc = .rUnlock := by decide
+example : ∃ s, Reachable refCfg s ∧ s.thrs.length = 2 ∧ s.pcs = [.rLock, .rUnlock] := by
+  have h : ∃ s, run refCfg (St.init 2)
+      [.callReinit 0, .app 0, .app 0, .app 0, .app 0, .app 0, .thr 0, .thr 0, .thr 0, .thr 0,
+       .callReinit 1, .thr 0, .app 1, .app 1, .callReinit 0, .app 1, .app 1] = some s ∧
+      s.thrs.length = 2 ∧ s.pcs = [.rLock, .rUnlock] := by decide
   obtain ⟨s, h1, h2⟩ := h
-  exact ⟨s, reachable_run Reachable.init _ h1, h2⟩
+  exact ⟨s, reachable_run (Reachable.init 2 0 0) _ h1, h2⟩
 
 /-- other programs the condition accepts / rejects -/
 example : NoLockAfterClear [.readConfig, .lock, .flush, .clearPending, .unlock] = true := by decide
